@@ -145,3 +145,1037 @@ Example model_is_source_C09_Iter_nonvacuous :
   | _, _ => False
   end.
 Proof. vm_compute. exact I. Qed.
+
+(* pending blocks of package iter2 for Props/C09.v -- append to the END of the file, as they stand.
+   The block starts with its own import sentences: they repeat the imports of the property file and add the proof files of
+   this package, so the block is independent of what was appended before it (a later `Require Import Floats` -- as in the
+   r2c2 block -- shadows leb/ltb/div/sqrt of Base.Arith with the primitive-float versions; re-importing Base.Arith after it
+   restores them).  Compiled copy of exactly these sentences: coq/Proofs/PinTest_iter2.v *)
+From Coq Require Import List Arith ZArith Floats Reals.
+From OV Require Import Base.Panic Base.Arith Model.Vector Model.Matrix Model.Sparse Model.Iter Inst.FloatInst Inst.QcInst
+  Proofs.Iter Proofs.IterField Proofs.IterInst Proofs.IterR Proofs.IterRows.
+From OV Require Import Proofs.SparseBase Proofs.SparseMul Proofs.IterR Proofs.IterSparse Proofs.IterSparseR Proofs.IterSparseBreakdown Proofs.IterSparseBreakdownField Proofs.IterSparseBreakdownQMR Proofs.IterSparseBreakdownTri
+  Proofs.IterCGVec Proofs.IterCGDim Proofs.IterCG Proofs.IterCGR Proofs.IterCGBi Proofs.IterCGBiOrth Proofs.IterCGSparse Proofs.IterCGDominant Proofs.IterCGOneStep Proofs.IterCGOneStepR
+  Proofs.IterCGExamples.
+Import ListNotations.
+
+(* ---- round two (package iter2).  (1) the degenerate starts for the implementation's own matrix type;
+        (2) the CONVERGENCE half for conjugate gradients, as far as exact arithmetic allows -- theorems about the
+        MODEL's solve_cg (Model/Iter.v, cg_body: the loop of src/sparse.rs:441-487 statement by statement) over any
+        field / over R with the exact square root; they say nothing about f64 rounding, which stays search-only;
+        (3) the breakdown exits of BiCG / BiCGSTAB / QMR characterised (the three open findings). ---- *)
+
+(* every well-formed square storage: a guess with b - A x0 = 0 (A the matrix the storage denotes) is accepted at once, x0 untouched *)
+Theorem exact_guess_ok0_sparse : forall (A : SArith), FieldLaws (SA A) -> SqrtLaws A ->
+  forall sv (s : sparse (SA A)) b x0 max tol,
+  wfS s -> sp_rows s = sp_cols s -> length b = sp_rows s -> length x0 = sp_rows s ->
+  (forall itol, sv = BiCG itol -> itol = 1 \/ itol = 2) ->
+  zipw sub b (sp_apply s x0) = repeat zero (sp_rows s) -> leb zero tol = true ->
+  exists g, run_sparse sv s b x0 max tol = Ok (IOk 0, x0, g).
+Proof. intros A FL SL sv s b x0 max tol. exact (run_sparse_exact_guess FL SL sv s b x0 max tol). Qed.
+Check exact_guess_ok0_sparse : forall (A : SArith), FieldLaws (SA A) -> SqrtLaws A ->
+  forall sv (s : sparse (SA A)) b x0 max tol,
+  wfS s -> sp_rows s = sp_cols s -> length b = sp_rows s -> length x0 = sp_rows s ->
+  (forall itol, sv = BiCG itol -> itol = 1 \/ itol = 2) ->
+  zipw sub b (sp_apply s x0) = repeat zero (sp_rows s) -> leb zero tol = true ->
+  exists g, run_sparse sv s b x0 max tol = Ok (IOk 0, x0, g).
+Print Assumptions exact_guess_ok0_sparse.
+Example exact_guess_ok0_sparse_nonvacuous : wfS exq_s /\ sp_rows exq_s = sp_cols exq_s /\
+  @zipw AQ sub [q 1 1; q 2 1] (@sp_apply AQ exq_s [q 1 11; q 7 11]) = repeat zero (sp_rows exq_s).
+Proof. split; [exact exq_s_wf|]. split; [reflexivity | exact exq_exact_guess]. Qed.
+
+Theorem zero_rhs_zero_guess_ok0_sparse : forall (A : SArith), FieldLaws (SA A) -> SqrtLaws A ->
+  forall sv (s : sparse (SA A)) max tol,
+  wfS s -> sp_rows s = sp_cols s -> (forall itol, sv = BiCG itol -> itol = 1 \/ itol = 2) -> leb zero tol = true ->
+  exists g, run_sparse sv s (repeat zero (sp_rows s)) (repeat zero (sp_rows s)) max tol
+            = Ok (IOk 0, repeat zero (sp_rows s), g).
+Proof. intros A FL SL sv s max tol. exact (run_sparse_zero_rhs_zero_guess FL SL sv s max tol). Qed.
+Check zero_rhs_zero_guess_ok0_sparse : forall (A : SArith), FieldLaws (SA A) -> SqrtLaws A ->
+  forall sv (s : sparse (SA A)) max tol,
+  wfS s -> sp_rows s = sp_cols s -> (forall itol, sv = BiCG itol -> itol = 1 \/ itol = 2) -> leb zero tol = true ->
+  exists g, run_sparse sv s (repeat zero (sp_rows s)) (repeat zero (sp_rows s)) max tol
+            = Ok (IOk 0, repeat zero (sp_rows s), g).
+Print Assumptions zero_rhs_zero_guess_ok0_sparse.
+Example zero_rhs_zero_guess_ok0_sparse_nonvacuous : wfS exq_s /\ sp_rows exq_s = sp_cols exq_s /\ SqrtLaws SAQ.
+Proof. split; [exact exq_s_wf|]. split; [reflexivity | exact SAQ_SqrtLaws]. Qed.
+
+(* (c) the full conjugacy invariant.  [cg_hist body s0 i s Rs Ps] (Proofs/IterCG.v): the loop started in s0 has reached iteration i
+   in state s through i-1 Continue steps of its own body; Rs = the residuals r_{i-2} .. r_0 of the earlier iterations, Ps = the search
+   directions p_{i-2} .. p_0, newest first.  Over ANY field, any sqrt, any total linear product symmetric w.r.t. the code's dot
+   (SymOp: <u, A v> = <A u, v>), any tol / normb / start state of the right sizes: the residuals r_0 .. r_{i-1} are mutually
+   orthogonal, the directions mutually A-conjugate, and the current residual is orthogonal to every direction.  (A division by zero
+   is a Panic of the model, so the statement speaks of every run that did not break down.) *)
+Theorem cg_full_conjugacy : forall (A : SArith), FieldLaws (SA A) ->
+  forall n (mulA : list (T (SA A)) -> res (list (T (SA A)))), LinOp n mulA -> SymOp n mulA ->
+  forall tol normb s0 i s Rs Ps, (length (cg_x s0) = n /\ length (cg_r s0) = n /\ length (cg_p s0) = n /\ length (cg_z s0) = n) ->
+  cg_hist (cg_body mulA n tol normb) s0 i s Rs Ps ->
+  ForallOrdPairs (fun u v => dot_raw u v = zero) (cg_r s :: Rs) /\
+  ForallOrdPairs (fun p1 p2 => exists q2, mulA p2 = Ok q2 /\ dot_raw p1 q2 = zero) Ps /\
+  Forall (fun p => dot_raw (cg_r s) p = zero) Ps /\ length Rs = i - 1 /\ length Ps = i - 1.
+Proof. intros A FL n mulA LO SYM tol normb s0 i s Rs Ps. exact (cg_hist_conjugacy FL n mulA LO SYM tol normb s0 i s Rs Ps). Qed.
+Check cg_full_conjugacy : forall (A : SArith), FieldLaws (SA A) ->
+  forall n (mulA : list (T (SA A)) -> res (list (T (SA A)))), LinOp n mulA -> SymOp n mulA ->
+  forall tol normb s0 i s Rs Ps, (length (cg_x s0) = n /\ length (cg_r s0) = n /\ length (cg_p s0) = n /\ length (cg_z s0) = n) ->
+  cg_hist (cg_body mulA n tol normb) s0 i s Rs Ps ->
+  ForallOrdPairs (fun u v => dot_raw u v = zero) (cg_r s :: Rs) /\
+  ForallOrdPairs (fun p1 p2 => exists q2, mulA p2 = Ok q2 /\ dot_raw p1 q2 = zero) Ps /\
+  Forall (fun p => dot_raw (cg_r s) p = zero) Ps /\ length Rs = i - 1 /\ length Ps = i - 1.
+Print Assumptions cg_full_conjugacy.
+Example cg_full_conjugacy_nonvacuous : LinOp 2 (@sp_mul AQ exq_s) /\ SymOp 2 (@sp_mul AQ exq_s) /\ @cg_lens SAQ 2 exq_s0 /\
+  exists s1 Rs Ps, @cg_hist SAQ exq_body exq_s0 2 s1 Rs Ps /\ Rs = [[q (-8) 1; q (-3) 1]].
+Proof. split; [exact exq_lin|]. split; [exact (sp_mul_SymOp AQ_RingLaws exq_s 2 exq_s_wf eq_refl eq_refl exq_s_sym)|]. exact exq_cg_hist. Qed.
+
+(* (b) after every step: r_{k+1} _|_ p_k and r_{k+1} _|_ r_k  (cg_p = the direction just used, cg_z = the residual before the step) *)
+Theorem cg_residuals_orthogonal : forall (A : SArith), FieldLaws (SA A) ->
+  forall n (mulA : list (T (SA A)) -> res (list (T (SA A)))), LinOp n mulA -> SymOp n mulA ->
+  forall tol normb s0 i s Rs Ps, (length (cg_x s0) = n /\ length (cg_r s0) = n /\ length (cg_p s0) = n /\ length (cg_z s0) = n) -> 2 <= i ->
+  cg_hist (cg_body mulA n tol normb) s0 i s Rs Ps ->
+  dot_raw (cg_r s) (cg_p s) = zero /\ dot_raw (cg_r s) (cg_z s) = zero.
+Proof. intros A FL n mulA LO SYM tol normb s0 i s Rs Ps. exact (cg_hist_local_orth FL n mulA LO SYM tol normb s0 i s Rs Ps). Qed.
+Check cg_residuals_orthogonal : forall (A : SArith), FieldLaws (SA A) ->
+  forall n (mulA : list (T (SA A)) -> res (list (T (SA A)))), LinOp n mulA -> SymOp n mulA ->
+  forall tol normb s0 i s Rs Ps, (length (cg_x s0) = n /\ length (cg_r s0) = n /\ length (cg_p s0) = n /\ length (cg_z s0) = n) -> 2 <= i ->
+  cg_hist (cg_body mulA n tol normb) s0 i s Rs Ps ->
+  dot_raw (cg_r s) (cg_p s) = zero /\ dot_raw (cg_r s) (cg_z s) = zero.
+Print Assumptions cg_residuals_orthogonal.
+Example cg_residuals_orthogonal_nonvacuous : LinOp 2 (@sp_mul AQ exq_s) /\ SymOp 2 (@sp_mul AQ exq_s) /\ @cg_lens SAQ 2 exq_s0 /\
+  exists s1 Rs Ps, @cg_hist SAQ exq_body exq_s0 2 s1 Rs Ps /\ Rs = [[q (-8) 1; q (-3) 1]].
+Proof. split; [exact exq_lin|]. split; [exact (sp_mul_SymOp AQ_RingLaws exq_s 2 exq_s_wf eq_refl eq_refl exq_s_sym)|]. exact exq_cg_hist. Qed.
+
+(* ... and for the iteration that returns Ok: the returned residual (= b - A x by residual_invariant_cg) is orthogonal to every earlier
+   residual and to every direction, the last one included *)
+Theorem cg_return_conjugacy : forall (A : SArith), FieldLaws (SA A) ->
+  forall n (mulA : list (T (SA A)) -> res (list (T (SA A)))), LinOp n mulA -> SymOp n mulA ->
+  forall tol normb s0 i s Rs Ps k x g, (length (cg_x s0) = n /\ length (cg_r s0) = n /\ length (cg_p s0) = n /\ length (cg_z s0) = n) ->
+  cg_hist (cg_body mulA n tol normb) s0 i s Rs Ps ->
+  cg_body mulA n tol normb i s = Ok (Return (IOk k, x, g)) ->
+  k = i /\ ForallOrdPairs (fun u v => dot_raw u v = zero) (g_t g :: cg_r s :: Rs) /\
+  exists p, ForallOrdPairs (fun p1 p2 => exists q2, mulA p2 = Ok q2 /\ dot_raw p1 q2 = zero) (p :: Ps) /\
+            Forall (fun p' => dot_raw (g_t g) p' = zero) (p :: Ps).
+Proof. intros A FL n mulA LO SYM tol normb s0 i s Rs Ps k x g. exact (cg_return_conjugacy FL n mulA LO SYM tol normb s0 i s Rs Ps k x g). Qed.
+Check cg_return_conjugacy : forall (A : SArith), FieldLaws (SA A) ->
+  forall n (mulA : list (T (SA A)) -> res (list (T (SA A)))), LinOp n mulA -> SymOp n mulA ->
+  forall tol normb s0 i s Rs Ps k x g, (length (cg_x s0) = n /\ length (cg_r s0) = n /\ length (cg_p s0) = n /\ length (cg_z s0) = n) ->
+  cg_hist (cg_body mulA n tol normb) s0 i s Rs Ps ->
+  cg_body mulA n tol normb i s = Ok (Return (IOk k, x, g)) ->
+  k = i /\ ForallOrdPairs (fun u v => dot_raw u v = zero) (g_t g :: cg_r s :: Rs) /\
+  exists p, ForallOrdPairs (fun p1 p2 => exists q2, mulA p2 = Ok q2 /\ dot_raw p1 q2 = zero) (p :: Ps) /\
+            Forall (fun p' => dot_raw (g_t g) p' = zero) (p :: Ps).
+Print Assumptions cg_return_conjugacy.
+Example cg_return_conjugacy_nonvacuous : LinOp 2 (@sp_mul AQ exq_s) /\ SymOp 2 (@sp_mul AQ exq_s) /\ @cg_lens SAQ 2 exq_s0 /\
+  exists s1 Rs Ps, @cg_hist SAQ exq_body exq_s0 2 s1 Rs Ps /\ Rs = [[q (-8) 1; q (-3) 1]].
+Proof. split; [exact exq_lin|]. split; [exact (sp_mul_SymOp AQ_RingLaws exq_s 2 exq_s_wf eq_refl eq_refl exq_s_sym)|]. exact exq_cg_hist. Qed.
+
+(* the solver as a whole: whenever at least one iteration was performed (Ok from the loop, or Err with a budget >= 1) the final residual
+   g_t g = b - A x is orthogonal to the initial residual b - A x0 *)
+Theorem cg_final_residual_orth_initial : forall (A : SArith), FieldLaws (SA A) ->
+  forall n (mulA : list (T (SA A)) -> res (list (T (SA A)))), LinOp n mulA -> SymOp n mulA ->
+  forall cols (b x0 : list (T (SA A))) max tol res x g,
+  solve_cg mulA n cols b x0 max tol = Ok (res, x, g) ->
+  g_exit g = 1 \/ (g_exit g = 2 /\ 1 <= max) ->
+  exists ax0, mulA x0 = Ok ax0 /\ dot_raw (g_t g) (zipw sub b ax0) = zero.
+Proof. intros A FL n mulA LO SYM cols b x0 max tol res x g. exact (solve_cg_residual_orth_initial FL n mulA LO SYM cols b x0 max tol res x g). Qed.
+Check cg_final_residual_orth_initial : forall (A : SArith), FieldLaws (SA A) ->
+  forall n (mulA : list (T (SA A)) -> res (list (T (SA A)))), LinOp n mulA -> SymOp n mulA ->
+  forall cols (b x0 : list (T (SA A))) max tol res x g,
+  solve_cg mulA n cols b x0 max tol = Ok (res, x, g) ->
+  g_exit g = 1 \/ (g_exit g = 2 /\ 1 <= max) ->
+  exists ax0, mulA x0 = Ok ax0 /\ dot_raw (g_t g) (zipw sub b ax0) = zero.
+Print Assumptions cg_final_residual_orth_initial.
+Example cg_final_residual_orth_initial_nonvacuous : LinOp 2 (@sp_mul AQ exq_s) /\ SymOp 2 (@sp_mul AQ exq_s) /\
+  exists x g, @solve_cg SAQ (@sp_mul AQ exq_s) 2 2 [q 1 1; q 2 1] [q 2 1; q 1 1] 10 (q 1 1000) = Ok (IOk 2, x, g).
+Proof. split; [exact exq_lin|]. split; [exact (sp_mul_SymOp AQ_RingLaws exq_s 2 exq_s_wf eq_refl eq_refl exq_s_sym)|].
+  apply (@ok_k_witness SAQ). vm_compute. reflexivity. Qed.
+
+(* ANY field (no order, no law for sqrt), A symmetric, any tol: breakdown or termination.  A run that starts iteration i >= 2 without a panic has
+   divided by <r_{i-2}, r_{i-2}>; mutually orthogonal non-isotropic vectors are at most n (next theorem): whenever solve_cg returns at all with a
+   budget >= n+2 it returns Ok k, k <= n+1 (over R, tol >= 0: k <= n and no panic for SPD -- cg_terminates_spd_R below) *)
+Theorem cg_breakdown_or_terminates : forall (A : SArith), FieldLaws (SA A) ->
+  forall n (mulA : list (T (SA A)) -> res (list (T (SA A)))), LinOp n mulA -> SymOp n mulA ->
+  forall cols (b x0 : list (T (SA A))) max tol res x g,
+  n + 2 <= max ->
+  solve_cg mulA n cols b x0 max tol = Ok (res, x, g) ->
+  exists k, res = IOk k /\ k <= n + 1.
+Proof. intros A FL n mulA LO SYM cols b x0 max tol res x g. exact (cg_breakdown_or_terminates FL n mulA LO SYM cols b x0 max tol res x g). Qed.
+Check cg_breakdown_or_terminates : forall (A : SArith), FieldLaws (SA A) ->
+  forall n (mulA : list (T (SA A)) -> res (list (T (SA A)))), LinOp n mulA -> SymOp n mulA ->
+  forall cols (b x0 : list (T (SA A))) max tol res x g,
+  n + 2 <= max ->
+  solve_cg mulA n cols b x0 max tol = Ok (res, x, g) ->
+  exists k, res = IOk k /\ k <= n + 1.
+Print Assumptions cg_breakdown_or_terminates.
+Example cg_breakdown_or_terminates_nonvacuous : LinOp 2 (@sp_mul AQ exq_s) /\ SymOp 2 (@sp_mul AQ exq_s) /\
+  exists x g, @solve_cg SAQ (@sp_mul AQ exq_s) 2 2 [q 1 1; q 2 1] [q 2 1; q 1 1] 10 (q 1 1000) = Ok (IOk 2, x, g).
+Proof. split; [exact exq_lin|]. split; [exact (sp_mul_SymOp AQ_RingLaws exq_s 2 exq_s_wf eq_refl eq_refl exq_s_sym)|].
+  apply (@ok_k_witness SAQ). vm_compute. reflexivity. Qed.
+
+(* for the implementation's matrix type (symmetric storage, any field): after at least one iteration <b - A x, b - A x0> = 0 for the returned x *)
+Theorem cg_final_residual_orth_initial_sparse : forall (A : SArith), FieldLaws (SA A) ->
+  forall (s : sparse (SA A)) (b x0 : list (T (SA A))) max tol res x g,
+  wfS s -> sp_symmetric s ->
+  run_sparse CG s b x0 max tol = Ok (res, x, g) ->
+  g_exit g = 1 \/ (g_exit g = 2 /\ 1 <= max) ->
+  dot_raw (zipw sub b (sp_apply s x)) (zipw sub b (sp_apply s x0)) = zero.
+Proof. intros A FL s b x0 max tol res x g. exact (cg_final_residual_orth_initial_sparse FL s b x0 max tol res x g). Qed.
+Check cg_final_residual_orth_initial_sparse : forall (A : SArith), FieldLaws (SA A) ->
+  forall (s : sparse (SA A)) (b x0 : list (T (SA A))) max tol res x g,
+  wfS s -> sp_symmetric s ->
+  run_sparse CG s b x0 max tol = Ok (res, x, g) ->
+  g_exit g = 1 \/ (g_exit g = 2 /\ 1 <= max) ->
+  dot_raw (zipw sub b (sp_apply s x)) (zipw sub b (sp_apply s x0)) = zero.
+Print Assumptions cg_final_residual_orth_initial_sparse.
+Example cg_final_residual_orth_initial_sparse_nonvacuous : wfS exq_s /\ sp_symmetric exq_s.
+Proof. split; [exact exq_s_wf | exact exq_s_sym]. Qed.
+
+Theorem cg_breakdown_or_terminates_sparse : forall (A : SArith), FieldLaws (SA A) ->
+  forall (s : sparse (SA A)) (b x0 : list (T (SA A))) max tol res x g,
+  wfS s -> sp_symmetric s -> sp_rows s + 2 <= max ->
+  run_sparse CG s b x0 max tol = Ok (res, x, g) ->
+  exists k, res = IOk k /\ k <= sp_rows s + 1.
+Proof. intros A FL s b x0 max tol res x g. exact (cg_breakdown_or_terminates_sparse FL s b x0 max tol res x g). Qed.
+Check cg_breakdown_or_terminates_sparse : forall (A : SArith), FieldLaws (SA A) ->
+  forall (s : sparse (SA A)) (b x0 : list (T (SA A))) max tol res x g,
+  wfS s -> sp_symmetric s -> sp_rows s + 2 <= max ->
+  run_sparse CG s b x0 max tol = Ok (res, x, g) ->
+  exists k, res = IOk k /\ k <= sp_rows s + 1.
+Print Assumptions cg_breakdown_or_terminates_sparse.
+Example cg_breakdown_or_terminates_sparse_nonvacuous : wfS exq_s /\ sp_symmetric exq_s.
+Proof. split; [exact exq_s_wf | exact exq_s_sym]. Qed.
+
+(* the dimension argument, any field: pairwise orthogonal vectors of F^n none of which is isotropic are at most n *)
+Theorem orthogonal_family_bound : forall (A : SArith), FieldLaws (SA A) -> forall n (vs : list (list (T (SA A)))),
+  Forall (fun v => length v = n) vs -> ForallOrdPairs (fun u v => dot_raw u v = zero) vs ->
+  Forall (fun v => dot_raw v v <> zero) vs -> length vs <= n.
+Proof. intros A FL n vs. exact (orth_family_bound FL n vs). Qed.
+Check orthogonal_family_bound : forall (A : SArith), FieldLaws (SA A) -> forall n (vs : list (list (T (SA A)))),
+  Forall (fun v => length v = n) vs -> ForallOrdPairs (fun u v => dot_raw u v = zero) vs ->
+  Forall (fun v => dot_raw v v <> zero) vs -> length vs <= n.
+Print Assumptions orthogonal_family_bound.
+Example orthogonal_family_bound_nonvacuous : Forall (fun v : list AQ => length v = 2) [[q 1 1; q 1 1]; [q 1 1; q (-1) 1]] /\
+  ForallOrdPairs (fun u v => @dot_raw AQ u v = zero) [[q 1 1; q 1 1]; [q 1 1; q (-1) 1]] /\
+  Forall (fun v => @dot_raw AQ v v <> zero) [[q 1 1; q 1 1]; [q 1 1; q (-1) 1]].
+Proof. exact exq_orth_family. Qed.
+
+(* the state invariant the next two theorems start from holds at every state of every run (cg_lens: the four vectors of the start state have length n;
+   cg_state_inv = sizes + the conjugacy invariant cgI of Proofs/IterCG.v, or "first iteration, nothing yet") *)
+Theorem cg_state_invariant : forall (A : SArith), FieldLaws (SA A) ->
+  forall n (mulA : list (T (SA A)) -> res (list (T (SA A)))), LinOp n mulA -> SymOp n mulA ->
+  forall tol normb s0 i s Rs Ps, cg_lens n s0 ->
+  cg_hist (cg_body mulA n tol normb) s0 i s Rs Ps -> cg_state_inv n mulA s0 i s Rs Ps.
+Proof. intros A FL n mulA LO SYM tol normb s0 i s Rs Ps. exact (cg_hist_inv FL n mulA LO SYM tol normb s0 i s Rs Ps). Qed.
+Check cg_state_invariant : forall (A : SArith), FieldLaws (SA A) ->
+  forall n (mulA : list (T (SA A)) -> res (list (T (SA A)))), LinOp n mulA -> SymOp n mulA ->
+  forall tol normb s0 i s Rs Ps, cg_lens n s0 ->
+  cg_hist (cg_body mulA n tol normb) s0 i s Rs Ps -> cg_state_inv n mulA s0 i s Rs Ps.
+Print Assumptions cg_state_invariant.
+Example cg_state_invariant_nonvacuous : LinOp 2 (@sp_mul AQ exq_s) /\ SymOp 2 (@sp_mul AQ exq_s) /\ @cg_lens SAQ 2 exq_s0 /\
+  exists s1 Rs Ps, @cg_hist SAQ exq_body exq_s0 2 s1 Rs Ps /\ Rs = [[q (-8) 1; q (-3) 1]].
+Proof. split; [exact exq_lin|]. split; [exact (sp_mul_SymOp AQ_RingLaws exq_s 2 exq_s_wf eq_refl eq_refl exq_s_sym)|]. exact exq_cg_hist. Qed.
+
+(* (a) over R, symmetric positive semi-definite A (PosSemi: 0 <= <v, A v>), xs any solution of A xs = b: from a state of a run
+   (cg_state_inv: the invariant cg_hist_inv establishes for every state of every run; tracks: r = b - A x, residual_invariant_cg)
+   one iteration moves x to x + alpha p where alpha MINIMISES t |-> |xs - (x + t p)|_A^2 (anorm2 e = <e, A e>), so the A-norm of
+   the error does not increase.  step_x out = the x after the iteration, whether it continues or returns Ok *)
+Theorem cg_step_is_line_minimiser_R : forall n (mulA : list R -> res (list R)), @LinOp AR n mulA -> @SymOp AR n mulA ->
+  forall tol normb s0 i s Rs Ps out (b xs : list R),
+  PosSemi n mulA -> length xs = n -> length b = n -> mulA xs = Ok b ->
+  @cg_state_inv SAR n mulA s0 i s Rs Ps -> @tracks SAR mulA b (cg_x s) (cg_r s) ->
+  @cg_body SAR mulA n tol normb i s = Ok out ->
+  exists p alpha, length p = n /\ step_x out = @zipw AR Rplus (cg_x s) (@vscale AR p alpha) /\
+    (forall t, (@anorm2 SAR mulA (@zipw AR Rminus xs (step_x out)) <=
+                @anorm2 SAR mulA (@zipw AR Rminus xs (@zipw AR Rplus (cg_x s) (@vscale AR p t))))%R) /\
+    (@anorm2 SAR mulA (@zipw AR Rminus xs (step_x out)) <= @anorm2 SAR mulA (@zipw AR Rminus xs (cg_x s)))%R.
+Proof. intros n mulA LO SYM tol normb s0 i s Rs Ps out b xs. exact (cg_step_minimises_R n mulA LO SYM tol normb s0 i s Rs Ps out b xs). Qed.
+Check cg_step_is_line_minimiser_R : forall n (mulA : list R -> res (list R)), @LinOp AR n mulA -> @SymOp AR n mulA ->
+  forall tol normb s0 i s Rs Ps out (b xs : list R),
+  PosSemi n mulA -> length xs = n -> length b = n -> mulA xs = Ok b ->
+  @cg_state_inv SAR n mulA s0 i s Rs Ps -> @tracks SAR mulA b (cg_x s) (cg_r s) ->
+  @cg_body SAR mulA n tol normb i s = Ok out ->
+  exists p alpha, length p = n /\ step_x out = @zipw AR Rplus (cg_x s) (@vscale AR p alpha) /\
+    (forall t, (@anorm2 SAR mulA (@zipw AR Rminus xs (step_x out)) <=
+                @anorm2 SAR mulA (@zipw AR Rminus xs (@zipw AR Rplus (cg_x s) (@vscale AR p t))))%R) /\
+    (@anorm2 SAR mulA (@zipw AR Rminus xs (step_x out)) <= @anorm2 SAR mulA (@zipw AR Rminus xs (cg_x s)))%R.
+Print Assumptions cg_step_is_line_minimiser_R.
+Example cg_step_is_line_minimiser_R_nonvacuous : @LinOp AR 2 (@sp_mul AR exr_s) /\ @SymOp AR 2 (@sp_mul AR exr_s) /\ PosSemi 2 (@sp_mul AR exr_s).
+Proof. destruct exr_spd_hyps as (_ & _ & _ & _ & H1 & H2 & H3). split; auto. split; auto. now apply PosDef_PosSemi. Qed.
+
+(* the classical optimality of CG: at every state of a run the iterate is the A-norm-best point of x0 + span(p_0 .. p_{k-1}) -- no linear
+   combination w of the search directions used so far (in_span n Ps w) improves the error: |xs - x_k|_A <= |xs - (x_k + w)|_A *)
+Theorem cg_krylov_optimal_R : forall n (mulA : list R -> res (list R)), @LinOp AR n mulA -> @SymOp AR n mulA ->
+  forall s0 i s Rs Ps (b xs w : list R),
+  PosSemi n mulA -> length xs = n -> length b = n -> mulA xs = Ok b ->
+  @cg_state_inv SAR n mulA s0 i s Rs Ps -> @tracks SAR mulA b (cg_x s) (cg_r s) ->
+  in_span n Ps w ->
+  (@anorm2 SAR mulA (@zipw AR Rminus xs (cg_x s)) <= @anorm2 SAR mulA (@zipw AR Rminus xs (@zipw AR Rplus (cg_x s) w)))%R.
+Proof. intros n mulA LO SYM s0 i s Rs Ps b xs w. exact (cg_krylov_optimal_R n mulA LO SYM s0 i s Rs Ps b xs w). Qed.
+Check cg_krylov_optimal_R : forall n (mulA : list R -> res (list R)), @LinOp AR n mulA -> @SymOp AR n mulA ->
+  forall s0 i s Rs Ps (b xs w : list R),
+  PosSemi n mulA -> length xs = n -> length b = n -> mulA xs = Ok b ->
+  @cg_state_inv SAR n mulA s0 i s Rs Ps -> @tracks SAR mulA b (cg_x s) (cg_r s) ->
+  in_span n Ps w ->
+  (@anorm2 SAR mulA (@zipw AR Rminus xs (cg_x s)) <= @anorm2 SAR mulA (@zipw AR Rminus xs (@zipw AR Rplus (cg_x s) w)))%R.
+Print Assumptions cg_krylov_optimal_R.
+Example cg_krylov_optimal_R_nonvacuous : @LinOp AR 2 (@sp_mul AR exr_s) /\ @SymOp AR 2 (@sp_mul AR exr_s) /\ PosSemi 2 (@sp_mul AR exr_s).
+Proof. destruct exr_spd_hyps as (_ & _ & _ & _ & H1 & H2 & H3). split; auto. split; auto. now apply PosDef_PosSemi. Qed.
+
+(* ... hence along the whole run: whatever solve_cg returns -- Ok or Err, any budget, any tol -- the error of the returned x is not larger
+   in the A-norm than the error of the guess ("never corrupt a correct x", quantitatively, in exact arithmetic) *)
+Theorem cg_error_monotone_R : forall n (mulA : list R -> res (list R)), @LinOp AR n mulA -> @SymOp AR n mulA ->
+  forall cols (b x0 xs : list R) max tol res x g,
+  PosSemi n mulA -> length xs = n -> mulA xs = Ok b ->
+  @solve_cg SAR mulA n cols b x0 max tol = Ok (res, x, g) ->
+  (@anorm2 SAR mulA (@zipw AR Rminus xs x) <= @anorm2 SAR mulA (@zipw AR Rminus xs x0))%R.
+Proof. intros n mulA LO SYM cols b x0 xs max tol res x g. exact (cg_error_monotone_R n mulA LO SYM cols b x0 xs max tol res x g). Qed.
+Check cg_error_monotone_R : forall n (mulA : list R -> res (list R)), @LinOp AR n mulA -> @SymOp AR n mulA ->
+  forall cols (b x0 xs : list R) max tol res x g,
+  PosSemi n mulA -> length xs = n -> mulA xs = Ok b ->
+  @solve_cg SAR mulA n cols b x0 max tol = Ok (res, x, g) ->
+  (@anorm2 SAR mulA (@zipw AR Rminus xs x) <= @anorm2 SAR mulA (@zipw AR Rminus xs x0))%R.
+Print Assumptions cg_error_monotone_R.
+Example cg_error_monotone_R_nonvacuous : @LinOp AR 2 (@sp_mul AR exr_s) /\ @SymOp AR 2 (@sp_mul AR exr_s) /\ PosSemi 2 (@sp_mul AR exr_s).
+Proof. destruct exr_spd_hyps as (_ & _ & _ & _ & H1 & H2 & H3). split; auto. split; auto. now apply PosDef_PosSemi. Qed.
+
+(* (c) finite termination.  Over R with the exact square root, A symmetric positive definite of order n (PosDef: 0 < <v, A v> for
+   v <> 0), EVERY right-hand side, EVERY guess, EVERY tol >= 0 (tol = 0 included), every budget >= n: the model's solve_cg does not
+   panic (no breakdown division can occur) and answers Ok k with k <= n.  With ok_means_solved_R: ||b - A x|| <= tol ||b||' *)
+Theorem cg_terminates_spd_R : forall n (mulA : list R -> res (list R)), @LinOp AR n mulA -> @SymOp AR n mulA ->
+  forall (b x0 : list R) max (tol : R),
+  PosDef n mulA -> length b = n -> length x0 = n -> (0 <= tol)%R -> n <= max ->
+  exists k x g, @solve_cg SAR mulA n n b x0 max tol = Ok (IOk k, x, g) /\ k <= n.
+Proof. intros n mulA LO SYM b x0 max tol. exact (cg_terminates_spd_R n mulA LO SYM b x0 max tol). Qed.
+Check cg_terminates_spd_R : forall n (mulA : list R -> res (list R)), @LinOp AR n mulA -> @SymOp AR n mulA ->
+  forall (b x0 : list R) max (tol : R),
+  PosDef n mulA -> length b = n -> length x0 = n -> (0 <= tol)%R -> n <= max ->
+  exists k x g, @solve_cg SAR mulA n n b x0 max tol = Ok (IOk k, x, g) /\ k <= n.
+Print Assumptions cg_terminates_spd_R.
+Example cg_terminates_spd_R_nonvacuous : @LinOp AR 2 (@sp_mul AR exr_s) /\ @SymOp AR 2 (@sp_mul AR exr_s) /\ PosDef 2 (@sp_mul AR exr_s).
+Proof. destruct exr_spd_hyps as (_ & _ & _ & _ & H1 & H2 & H3). auto. Qed.
+
+(* the same for the implementation's own matrix type: a well-formed square CSC storage whose denoted matrix is symmetric
+   (sp_entry s i j = sp_entry s j i) and positive definite (0 < <v, A v>, A v = sp_apply s v): Ok within n iterations AND solved *)
+Theorem cg_terminates_spd_sparse_R : forall (s : sparse AR) (b x0 : list R) max (tol : R),
+  wfS s -> sp_rows s = sp_cols s -> sp_symmetric s -> sp_posdef s ->
+  length b = sp_rows s -> length x0 = sp_rows s -> (0 <= tol)%R -> sp_rows s <= max ->
+  exists k x g, @run_sparse SAR CG s b x0 max tol = Ok (IOk k, x, g) /\ k <= sp_rows s /\
+    (@norm2 SAR (@zipw AR Rminus b (@sp_apply AR s x)) <= tol * @nz SAR (@norm2 SAR b))%R.
+Proof. intros s b x0 max tol. exact (cg_terminates_spd_sparse_R s b x0 max tol). Qed.
+Check cg_terminates_spd_sparse_R : forall (s : sparse AR) (b x0 : list R) max (tol : R),
+  wfS s -> sp_rows s = sp_cols s -> sp_symmetric s -> sp_posdef s ->
+  length b = sp_rows s -> length x0 = sp_rows s -> (0 <= tol)%R -> sp_rows s <= max ->
+  exists k x g, @run_sparse SAR CG s b x0 max tol = Ok (IOk k, x, g) /\ k <= sp_rows s /\
+    (@norm2 SAR (@zipw AR Rminus b (@sp_apply AR s x)) <= tol * @nz SAR (@norm2 SAR b))%R.
+Print Assumptions cg_terminates_spd_sparse_R.
+Example cg_terminates_spd_sparse_R_nonvacuous : wfS exr_s /\ sp_rows exr_s = sp_cols exr_s /\ sp_symmetric exr_s /\ sp_posdef exr_s.
+Proof. destruct exr_spd_hyps as (H1 & H2 & H3 & H4 & _). auto. Qed.
+
+(* symmetric A, NOT necessarily definite (indefinite, singular): "Ok within n iterations for every tol >= 0 when no breakdown division occurs" --
+   in exact arithmetic a breakdown division is a Panic of the model, so: whenever solve_cg returns at all (budget >= n) it returns Ok k, k <= n;
+   it can neither exhaust its budget nor need more than n iterations *)
+Theorem cg_no_breakdown_terminates_R : forall n (mulA : list R -> res (list R)), @LinOp AR n mulA -> @SymOp AR n mulA ->
+  forall cols (b x0 : list R) max (tol : R) res x g,
+  (0 <= tol)%R -> n <= max ->
+  @solve_cg SAR mulA n cols b x0 max tol = Ok (res, x, g) ->
+  exists k, res = IOk k /\ k <= n.
+Proof. intros n mulA LO SYM cols b x0 max tol res x g. exact (cg_no_breakdown_terminates_R n mulA LO SYM cols b x0 max tol res x g). Qed.
+Check cg_no_breakdown_terminates_R : forall n (mulA : list R -> res (list R)), @LinOp AR n mulA -> @SymOp AR n mulA ->
+  forall cols (b x0 : list R) max (tol : R) res x g,
+  (0 <= tol)%R -> n <= max ->
+  @solve_cg SAR mulA n cols b x0 max tol = Ok (res, x, g) ->
+  exists k, res = IOk k /\ k <= n.
+Print Assumptions cg_no_breakdown_terminates_R.
+Example cg_no_breakdown_terminates_R_nonvacuous : @LinOp AR 2 (@sp_mul AR exr_s) /\ @SymOp AR 2 (@sp_mul AR exr_s).
+Proof. destruct exr_spd_hyps as (_ & _ & _ & _ & H1 & H2 & _). auto. Qed.
+
+Theorem cg_no_breakdown_terminates_sparse_R : forall (s : sparse AR) (b x0 : list R) max (tol : R) res x g,
+  wfS s -> sp_symmetric s -> (0 <= tol)%R -> sp_rows s <= max ->
+  @run_sparse SAR CG s b x0 max tol = Ok (res, x, g) ->
+  exists k, res = IOk k /\ k <= sp_rows s.
+Proof. intros s b x0 max tol res x g. exact (cg_no_breakdown_terminates_sparse_R s b x0 max tol res x g). Qed.
+Check cg_no_breakdown_terminates_sparse_R : forall (s : sparse AR) (b x0 : list R) max (tol : R) res x g,
+  wfS s -> sp_symmetric s -> (0 <= tol)%R -> sp_rows s <= max ->
+  @run_sparse SAR CG s b x0 max tol = Ok (res, x, g) ->
+  exists k, res = IOk k /\ k <= sp_rows s.
+Print Assumptions cg_no_breakdown_terminates_sparse_R.
+Example cg_no_breakdown_terminates_sparse_R_nonvacuous : wfS exr_s /\ sp_symmetric exr_s.
+Proof. split; [exact exr_s_wf | exact exr_s_sym]. Qed.
+
+(* tol = 0: in exact arithmetic CG is a DIRECT solver for SPD systems -- within n iterations it returns x with A x = b exactly, and that x is
+   the solution (every xs with A xs = b equals it): the "agreement with the direct solution" of C09, in exact arithmetic *)
+Theorem cg_direct_solver_R : forall n (mulA : list R -> res (list R)), @LinOp AR n mulA -> @SymOp AR n mulA ->
+  forall (b x0 : list R) max,
+  PosDef n mulA -> length b = n -> length x0 = n -> n <= max ->
+  exists k x g, @solve_cg SAR mulA n n b x0 max 0%R = Ok (IOk k, x, g) /\ k <= n /\ mulA x = Ok b /\
+    forall xs, length xs = n -> mulA xs = Ok b -> xs = x.
+Proof. intros n mulA LO SYM b x0 max. exact (cg_direct_solver_R n mulA LO SYM b x0 max). Qed.
+Check cg_direct_solver_R : forall n (mulA : list R -> res (list R)), @LinOp AR n mulA -> @SymOp AR n mulA ->
+  forall (b x0 : list R) max,
+  PosDef n mulA -> length b = n -> length x0 = n -> n <= max ->
+  exists k x g, @solve_cg SAR mulA n n b x0 max 0%R = Ok (IOk k, x, g) /\ k <= n /\ mulA x = Ok b /\
+    forall xs, length xs = n -> mulA xs = Ok b -> xs = x.
+Print Assumptions cg_direct_solver_R.
+Example cg_direct_solver_R_nonvacuous : @LinOp AR 2 (@sp_mul AR exr_s) /\ @SymOp AR 2 (@sp_mul AR exr_s) /\ PosDef 2 (@sp_mul AR exr_s).
+Proof. destruct exr_spd_hyps as (_ & _ & _ & _ & H1 & H2 & H3). auto. Qed.
+
+Theorem cg_direct_solver_sparse_R : forall (s : sparse AR) (b x0 : list R) max,
+  wfS s -> sp_rows s = sp_cols s -> sp_symmetric s -> sp_posdef s ->
+  length b = sp_rows s -> length x0 = sp_rows s -> sp_rows s <= max ->
+  exists k x g, @run_sparse SAR CG s b x0 max 0%R = Ok (IOk k, x, g) /\ k <= sp_rows s /\
+    @sp_apply AR s x = b /\
+    forall xs, length xs = sp_rows s -> @sp_apply AR s xs = b -> xs = x.
+Proof. intros s b x0 max. exact (cg_direct_solver_sparse_R s b x0 max). Qed.
+Check cg_direct_solver_sparse_R : forall (s : sparse AR) (b x0 : list R) max,
+  wfS s -> sp_rows s = sp_cols s -> sp_symmetric s -> sp_posdef s ->
+  length b = sp_rows s -> length x0 = sp_rows s -> sp_rows s <= max ->
+  exists k x g, @run_sparse SAR CG s b x0 max 0%R = Ok (IOk k, x, g) /\ k <= sp_rows s /\
+    @sp_apply AR s x = b /\
+    forall xs, length xs = sp_rows s -> @sp_apply AR s xs = b -> xs = x.
+Print Assumptions cg_direct_solver_sparse_R.
+Example cg_direct_solver_sparse_R_nonvacuous : wfS exr_s /\ sp_rows exr_s = sp_cols exr_s /\ sp_symmetric exr_s /\ sp_posdef exr_s.
+Proof. destruct exr_spd_hyps as (H1 & H2 & H3 & H4 & _). auto. Qed.
+
+Theorem cg_error_monotone_sparse_R : forall (s : sparse AR) (b x0 xs : list R) max tol res x g,
+  wfS s -> sp_symmetric s ->
+  (forall v, length v = sp_cols s -> (0 <= @dot_raw AR v (@sp_apply AR s v))%R) ->
+  length xs = sp_cols s -> @sp_apply AR s xs = b ->
+  @run_sparse SAR CG s b x0 max tol = Ok (res, x, g) ->
+  (@anorm2 SAR (@sp_mul AR s) (@zipw AR Rminus xs x) <= @anorm2 SAR (@sp_mul AR s) (@zipw AR Rminus xs x0))%R.
+Proof. intros s b x0 xs max tol res x g. exact (cg_error_monotone_sparse_R s b x0 xs max tol res x g). Qed.
+Check cg_error_monotone_sparse_R : forall (s : sparse AR) (b x0 xs : list R) max tol res x g,
+  wfS s -> sp_symmetric s ->
+  (forall v, length v = sp_cols s -> (0 <= @dot_raw AR v (@sp_apply AR s v))%R) ->
+  length xs = sp_cols s -> @sp_apply AR s xs = b ->
+  @run_sparse SAR CG s b x0 max tol = Ok (res, x, g) ->
+  (@anorm2 SAR (@sp_mul AR s) (@zipw AR Rminus xs x) <= @anorm2 SAR (@sp_mul AR s) (@zipw AR Rminus xs x0))%R.
+Print Assumptions cg_error_monotone_sparse_R.
+Example cg_error_monotone_sparse_R_nonvacuous : wfS exr_s /\ sp_symmetric exr_s.
+Proof. split; [exact exr_s_wf | exact exr_s_sym]. Qed.
+
+(* on a symmetric matrix the model's BiCG IS its CG (exact arithmetic, any field): if transpose_multiply agrees with multiply on vectors of
+   length n, whatever solve_cg returns -- Ok k or Err e, and x -- solve_bicg returns too, for both error measures (only the ghost differs) *)
+Theorem bicg_is_cg_on_symmetric : forall (A : SArith), FieldLaws (SA A) ->
+  forall n (mulA mulAT : list (T (SA A)) -> res (list (T (SA A)))), LinOp n mulA ->
+  (forall v, length v = n -> mulAT v = mulA v) ->
+  forall itol (b x0 : list (T (SA A))) max tol res x g, itol = 1 \/ itol = 2 ->
+  solve_cg mulA n n b x0 max tol = Ok (res, x, g) ->
+  exists g', solve_bicg mulA mulAT n n itol b x0 max tol = Ok (res, x, g').
+Proof. intros A FL n mulA mulAT LO TS itol b x0 max tol res x g. exact (bicg_is_cg_on_symmetric FL n mulA mulAT LO TS itol b x0 max tol res x g). Qed.
+Check bicg_is_cg_on_symmetric : forall (A : SArith), FieldLaws (SA A) ->
+  forall n (mulA mulAT : list (T (SA A)) -> res (list (T (SA A)))), LinOp n mulA ->
+  (forall v, length v = n -> mulAT v = mulA v) ->
+  forall itol (b x0 : list (T (SA A))) max tol res x g, itol = 1 \/ itol = 2 ->
+  solve_cg mulA n n b x0 max tol = Ok (res, x, g) ->
+  exists g', solve_bicg mulA mulAT n n itol b x0 max tol = Ok (res, x, g').
+Print Assumptions bicg_is_cg_on_symmetric.
+Example bicg_is_cg_on_symmetric_nonvacuous : LinOp 2 (@sp_mul AQ exq_s) /\ (forall v : list AQ, length v = 2 -> sp_tmul exq_s v = sp_mul exq_s v) /\
+  exists x g, @solve_cg SAQ (@sp_mul AQ exq_s) 2 2 [q 1 1; q 2 1] [q 2 1; q 1 1] 10 (q 1 1000) = Ok (IOk 2, x, g).
+Proof. split; [exact exq_lin|]. split; [exact (sp_tmul_eq_mul_sym AQ_RingLaws exq_s 2 exq_s_wf eq_refl eq_refl exq_s_sym)|].
+  apply (@ok_k_witness SAQ). vm_compute. reflexivity. Qed.
+
+(* ... and every CSC storage whose denoted matrix is symmetric satisfies that hypothesis *)
+Theorem sparse_symmetric_tmul_is_mul : forall (A : Arith), RingLaws A -> forall (s : sparse A) n,
+  wfS s -> sp_rows s = n -> sp_cols s = n -> sp_symmetric s ->
+  forall v, length v = n -> sp_tmul s v = sp_mul s v.
+Proof. intros A RL s n. exact (sp_tmul_eq_mul_sym RL s n). Qed.
+Check sparse_symmetric_tmul_is_mul : forall (A : Arith), RingLaws A -> forall (s : sparse A) n,
+  wfS s -> sp_rows s = n -> sp_cols s = n -> sp_symmetric s ->
+  forall v, length v = n -> sp_tmul s v = sp_mul s v.
+Print Assumptions sparse_symmetric_tmul_is_mul.
+Example sparse_symmetric_tmul_is_mul_nonvacuous : wfS exq_s /\ sp_symmetric exq_s.
+Proof. split; [exact exq_s_wf | exact exq_s_sym]. Qed.
+
+(* hence the convergence theorem transfers: BiCG (either error measure) on an SPD storage of order n over R answers Ok within n iterations, solved *)
+Theorem bicg_terminates_spd_sparse_R : forall (s : sparse AR) itol (b x0 : list R) max (tol : R),
+  wfS s -> sp_rows s = sp_cols s -> sp_symmetric s -> sp_posdef s -> itol = 1 \/ itol = 2 ->
+  length b = sp_rows s -> length x0 = sp_rows s -> (0 <= tol)%R -> sp_rows s <= max ->
+  exists k x g, @run_sparse SAR (BiCG itol) s b x0 max tol = Ok (IOk k, x, g) /\ k <= sp_rows s /\
+    (@norm2 SAR (@zipw AR Rminus b (@sp_apply AR s x)) <= tol * @nz SAR (@norm2 SAR b))%R.
+Proof. intros s itol b x0 max tol. exact (bicg_terminates_spd_sparse_R s itol b x0 max tol). Qed.
+Check bicg_terminates_spd_sparse_R : forall (s : sparse AR) itol (b x0 : list R) max (tol : R),
+  wfS s -> sp_rows s = sp_cols s -> sp_symmetric s -> sp_posdef s -> itol = 1 \/ itol = 2 ->
+  length b = sp_rows s -> length x0 = sp_rows s -> (0 <= tol)%R -> sp_rows s <= max ->
+  exists k x g, @run_sparse SAR (BiCG itol) s b x0 max tol = Ok (IOk k, x, g) /\ k <= sp_rows s /\
+    (@norm2 SAR (@zipw AR Rminus b (@sp_apply AR s x)) <= tol * @nz SAR (@norm2 SAR b))%R.
+Print Assumptions bicg_terminates_spd_sparse_R.
+Example bicg_terminates_spd_sparse_R_nonvacuous : wfS exr_s /\ sp_rows exr_s = sp_cols exr_s /\ sp_symmetric exr_s /\ sp_posdef exr_s.
+Proof. destruct exr_spd_hyps as (H1 & H2 & H3 & H4 & _). auto. Qed.
+
+(* the class "strictly diagonally dominant" of C09, as far as exact-arithmetic convergence is provable: a real symmetric matrix that is strictly
+   diagonally dominant with a positive diagonal (sp_sdd_pos: a_ii > sum_{j<>i} |a_ij|, read off the entries) is positive definite ... *)
+Theorem sdd_symmetric_is_posdef : forall (s : sparse AR), sp_rows s = sp_cols s -> sp_symmetric s -> sp_sdd_pos s -> sp_posdef s.
+Proof. intros s. exact (sdd_sym_posdef s). Qed.
+Check sdd_symmetric_is_posdef : forall (s : sparse AR), sp_rows s = sp_cols s -> sp_symmetric s -> sp_sdd_pos s -> sp_posdef s.
+Print Assumptions sdd_symmetric_is_posdef.
+Example sdd_symmetric_is_posdef_nonvacuous : wfS exr_s /\ sp_rows exr_s = sp_cols exr_s /\ sp_symmetric exr_s /\ sp_sdd_pos exr_s.
+Proof. split; [exact exr_s_wf|]. split; [reflexivity|]. split; [exact exr_s_sym | exact exr_s_sdd]. Qed.
+
+(* ... hence on every such storage CG answers Ok within n iterations, solved, for every b, x0, tol >= 0, budget >= n *)
+Theorem cg_terminates_sdd_sparse_R : forall (s : sparse AR) (b x0 : list R) max (tol : R),
+  wfS s -> sp_rows s = sp_cols s -> sp_symmetric s -> sp_sdd_pos s ->
+  length b = sp_rows s -> length x0 = sp_rows s -> (0 <= tol)%R -> sp_rows s <= max ->
+  exists k x g, @run_sparse SAR CG s b x0 max tol = Ok (IOk k, x, g) /\ k <= sp_rows s /\
+    (@norm2 SAR (@zipw AR Rminus b (@sp_apply AR s x)) <= tol * @nz SAR (@norm2 SAR b))%R.
+Proof. intros s b x0 max tol. exact (cg_terminates_sdd_sparse_R s b x0 max tol). Qed.
+Check cg_terminates_sdd_sparse_R : forall (s : sparse AR) (b x0 : list R) max (tol : R),
+  wfS s -> sp_rows s = sp_cols s -> sp_symmetric s -> sp_sdd_pos s ->
+  length b = sp_rows s -> length x0 = sp_rows s -> (0 <= tol)%R -> sp_rows s <= max ->
+  exists k x g, @run_sparse SAR CG s b x0 max tol = Ok (IOk k, x, g) /\ k <= sp_rows s /\
+    (@norm2 SAR (@zipw AR Rminus b (@sp_apply AR s x)) <= tol * @nz SAR (@norm2 SAR b))%R.
+Print Assumptions cg_terminates_sdd_sparse_R.
+Example cg_terminates_sdd_sparse_R_nonvacuous : wfS exr_s /\ sp_rows exr_s = sp_cols exr_s /\ sp_symmetric exr_s /\ sp_sdd_pos exr_s.
+Proof. split; [exact exr_s_wf|]. split; [reflexivity|]. split; [exact exr_s_sym | exact exr_s_sdd]. Qed.
+
+(* ... and so does BiCG with either error measure.  (For NONsymmetric strictly diagonally dominant systems no such theorem exists: the
+   left-eigenvector breakdowns below are strictly diagonally dominant.) *)
+Theorem bicg_terminates_sdd_sparse_R : forall (s : sparse AR) itol (b x0 : list R) max (tol : R),
+  wfS s -> sp_rows s = sp_cols s -> sp_symmetric s -> sp_sdd_pos s -> itol = 1 \/ itol = 2 ->
+  length b = sp_rows s -> length x0 = sp_rows s -> (0 <= tol)%R -> sp_rows s <= max ->
+  exists k x g, @run_sparse SAR (BiCG itol) s b x0 max tol = Ok (IOk k, x, g) /\ k <= sp_rows s /\
+    (@norm2 SAR (@zipw AR Rminus b (@sp_apply AR s x)) <= tol * @nz SAR (@norm2 SAR b))%R.
+Proof. intros s itol b x0 max tol. exact (bicg_terminates_sdd_sparse_R s itol b x0 max tol). Qed.
+Check bicg_terminates_sdd_sparse_R : forall (s : sparse AR) itol (b x0 : list R) max (tol : R),
+  wfS s -> sp_rows s = sp_cols s -> sp_symmetric s -> sp_sdd_pos s -> itol = 1 \/ itol = 2 ->
+  length b = sp_rows s -> length x0 = sp_rows s -> (0 <= tol)%R -> sp_rows s <= max ->
+  exists k x g, @run_sparse SAR (BiCG itol) s b x0 max tol = Ok (IOk k, x, g) /\ k <= sp_rows s /\
+    (@norm2 SAR (@zipw AR Rminus b (@sp_apply AR s x)) <= tol * @nz SAR (@norm2 SAR b))%R.
+Print Assumptions bicg_terminates_sdd_sparse_R.
+Example bicg_terminates_sdd_sparse_R_nonvacuous : wfS exr_s /\ sp_rows exr_s = sp_cols exr_s /\ sp_symmetric exr_s /\ sp_sdd_pos exr_s.
+Proof. split; [exact exr_s_wf|]. split; [reflexivity|]. split; [exact exr_s_sym | exact exr_s_sdd]. Qed.
+
+(* the positive counterpart of the left-eigenvector breakdowns, ALL FOUR solvers, over R: if the initial residual is a (right) eigenvector of A
+   with a nonzero eigenvalue, the first step lands on the exact solution x0 + r0/lam and the solver answers Ok within ONE iteration -- for every
+   tol >= 0 and every budget >= 1 (A arbitrary otherwise: nonsymmetric, indefinite; mulAT only has to be total) *)
+Theorem eigen_start_converges_R : forall n (mulA mulAT : list R -> res (list R)), @LinOp AR n mulA ->
+  (forall v, length v = n -> exists w, mulAT v = Ok w /\ length w = n) ->
+  forall sv (b x0 ax : list R) (lam : R) max (tol : R),
+  (forall itol, sv = BiCG itol -> itol = 1 \/ itol = 2) ->
+  length b = n -> length x0 = n -> mulA x0 = Ok ax ->
+  let r0 := @zipw AR Rminus b ax in
+  mulA r0 = Ok (@vscale AR r0 lam) -> lam <> 0%R -> (0 <= tol)%R -> 1 <= max ->
+  exists k x g, @run SAR mulA mulAT n n sv b x0 max tol = Ok (IOk k, x, g) /\ k <= 1.
+Proof. intros n mulA mulAT LO TOT sv b x0 ax lam max tol. exact (eigen_start_converges_R n mulA mulAT LO TOT sv b x0 ax lam max tol). Qed.
+Check eigen_start_converges_R : forall n (mulA mulAT : list R -> res (list R)), @LinOp AR n mulA ->
+  (forall v, length v = n -> exists w, mulAT v = Ok w /\ length w = n) ->
+  forall sv (b x0 ax : list R) (lam : R) max (tol : R),
+  (forall itol, sv = BiCG itol -> itol = 1 \/ itol = 2) ->
+  length b = n -> length x0 = n -> mulA x0 = Ok ax ->
+  let r0 := @zipw AR Rminus b ax in
+  mulA r0 = Ok (@vscale AR r0 lam) -> lam <> 0%R -> (0 <= tol)%R -> 1 <= max ->
+  exists k x g, @run SAR mulA mulAT n n sv b x0 max tol = Ok (IOk k, x, g) /\ k <= 1.
+Print Assumptions eigen_start_converges_R.
+
+(* for the implementation's matrix type.  Instance: the SAME matrix [[2,-1],[0,1]] on which QMR/BiCG break down for b = (2,-2), with b = (1,0) *)
+Theorem eigen_start_converges_sparse_R : forall sv (s : sparse AR) (b x0 : list R) (lam : R) max (tol : R),
+  wfS s -> sp_rows s = sp_cols s ->
+  (forall itol, sv = BiCG itol -> itol = 1 \/ itol = 2) ->
+  length b = sp_rows s -> length x0 = sp_rows s ->
+  let r0 := @zipw AR Rminus b (@sp_apply AR s x0) in
+  @sp_apply AR s r0 = @vscale AR r0 lam -> lam <> 0%R -> (0 <= tol)%R -> 1 <= max ->
+  exists k x g, @run_sparse SAR sv s b x0 max tol = Ok (IOk k, x, g) /\ k <= 1.
+Proof. intros sv s b x0 lam max tol. exact (eigen_start_converges_sparse_R sv s b x0 lam max tol). Qed.
+Check eigen_start_converges_sparse_R : forall sv (s : sparse AR) (b x0 : list R) (lam : R) max (tol : R),
+  wfS s -> sp_rows s = sp_cols s ->
+  (forall itol, sv = BiCG itol -> itol = 1 \/ itol = 2) ->
+  length b = sp_rows s -> length x0 = sp_rows s ->
+  let r0 := @zipw AR Rminus b (@sp_apply AR s x0) in
+  @sp_apply AR s r0 = @vscale AR r0 lam -> lam <> 0%R -> (0 <= tol)%R -> 1 <= max ->
+  exists k x g, @run_sparse SAR sv s b x0 max tol = Ok (IOk k, x, g) /\ k <= 1.
+Print Assumptions eigen_start_converges_sparse_R.
+Example eigen_start_converges_sparse_R_nonvacuous : wfS kr_s /\ sp_rows kr_s = sp_cols kr_s /\
+  (let r0 := @zipw AR Rminus [1%R; 0%R] (@sp_apply AR kr_s [0%R; 0%R]) in @sp_apply AR kr_s r0 = @vscale AR r0 2%R).
+Proof. split; [exact kr_s_wf|]. split; [reflexivity | exact kr_right_eigenvector]. Qed.
+
+(* (d) every 1 x 1 system a x = b with a <> 0: every solver answers Ok within one iteration, for every b, x0, tol >= 0, budget >= 1 *)
+Theorem one_by_one_converges_R : forall (mulA mulAT : list R -> res (list R)) (a : R) sv (b x0 : list R) max (tol : R),
+  @LinOp AR 1 mulA -> (forall v, length v = 1 -> exists w, mulAT v = Ok w /\ length w = 1) ->
+  mulA [1%R] = Ok [a] -> a <> 0%R ->
+  (forall itol, sv = BiCG itol -> itol = 1 \/ itol = 2) ->
+  length b = 1 -> length x0 = 1 -> (0 <= tol)%R -> 1 <= max ->
+  exists k x g, @run SAR mulA mulAT 1 1 sv b x0 max tol = Ok (IOk k, x, g) /\ k <= 1.
+Proof. intros mulA mulAT a sv b x0 max tol. exact (one_by_one_converges_R mulA mulAT a sv b x0 max tol). Qed.
+Check one_by_one_converges_R : forall (mulA mulAT : list R -> res (list R)) (a : R) sv (b x0 : list R) max (tol : R),
+  @LinOp AR 1 mulA -> (forall v, length v = 1 -> exists w, mulAT v = Ok w /\ length w = 1) ->
+  mulA [1%R] = Ok [a] -> a <> 0%R ->
+  (forall itol, sv = BiCG itol -> itol = 1 \/ itol = 2) ->
+  length b = 1 -> length x0 = 1 -> (0 <= tol)%R -> 1 <= max ->
+  exists k x g, @run SAR mulA mulAT 1 1 sv b x0 max tol = Ok (IOk k, x, g) /\ k <= 1.
+Print Assumptions one_by_one_converges_R.
+
+(* BiCG, ARBITRARY (nonsymmetric) matrix given by a linear product and its adjoint, any field: along every run of the model's loop (started,
+   as solve_bicg starts it, with the shadow residual equal to the residual) the residuals and the shadow residuals are BI-ORTHOGONAL:
+   at the state reached after k = i-1 steps there are histories R = [r_{k-1};..;r_0], RR = [rr_{k-1};..;rr_0] with <r_a, rr_b> = 0 for a <> b
+   (bo (u,u') (v,v') := <u,v'> = 0 /\ <v,u'> = 0; biI = the full invariant of Proofs/IterCGBiOrth.v, both sides obtained from ONE abstract
+   half_step lemma) *)
+Theorem bicg_biorthogonality : forall (A : SArith), FieldLaws (SA A) ->
+  forall n (mulA mulAT : list (T (SA A)) -> res (list (T (SA A)))), LinOp n mulA -> LinOp n mulAT -> AdjOp n mulA mulAT ->
+  forall itol tol bnrm (s0 : @bicg_st A) i s,
+  itol = 1 \/ itol = 2 -> bi_lens n s0 -> bi_rr s0 = bi_r s0 -> 2 <= i ->
+  reaches (bicg_body mulA mulAT n itol tol bnrm) 1 s0 i s ->
+  exists R RR P PP, length R = i - 1 /\ length RR = i - 1 /\
+    ForallOrdPairs bo ((bi_r s, bi_rr s) :: combine R RR) /\
+    biI n mulA mulAT (bi_x s) (bi_r s) (bi_rr s) (bi_p s) (bi_pp s) (bi_rho2 s) R RR P PP.
+Proof. intros A FL n mulA mulAT LO LOT ADJ itol tol bnrm s0 i s. exact (bicg_biorthogonality FL n mulA mulAT LO LOT ADJ itol tol bnrm s0 i s). Qed.
+Check bicg_biorthogonality : forall (A : SArith), FieldLaws (SA A) ->
+  forall n (mulA mulAT : list (T (SA A)) -> res (list (T (SA A)))), LinOp n mulA -> LinOp n mulAT -> AdjOp n mulA mulAT ->
+  forall itol tol bnrm (s0 : @bicg_st A) i s,
+  itol = 1 \/ itol = 2 -> bi_lens n s0 -> bi_rr s0 = bi_r s0 -> 2 <= i ->
+  reaches (bicg_body mulA mulAT n itol tol bnrm) 1 s0 i s ->
+  exists R RR P PP, length R = i - 1 /\ length RR = i - 1 /\
+    ForallOrdPairs bo ((bi_r s, bi_rr s) :: combine R RR) /\
+    biI n mulA mulAT (bi_x s) (bi_r s) (bi_rr s) (bi_p s) (bi_pp s) (bi_rho2 s) R RR P PP.
+Print Assumptions bicg_biorthogonality.
+Example bicg_biorthogonality_nonvacuous : LinOp 2 (@sp_mul AQ kq_s) /\ LinOp 2 (@sp_tmul AQ kq_s) /\ AdjOp 2 (@sp_mul AQ kq_s) (@sp_tmul AQ kq_s).
+Proof. split; [exact (sp_mul_LinOp AQ_RingLaws kq_s 2 kq_s_wf eq_refl eq_refl)|].
+  split; [exact (sp_tmul_LinOp AQ_RingLaws kq_s 2 kq_s_wf eq_refl eq_refl) | exact (sp_mul_AdjOp AQ_RingLaws kq_s 2 kq_s_wf eq_refl eq_refl)]. Qed.
+
+(* the solver as a whole, ANY square matrix: whenever at least one iteration was performed (Ok from the loop, or Err with a budget >= 1) the final
+   residual g_t g = b - A x is orthogonal to the initial residual b - A x0 (which is the initial shadow residual) *)
+Theorem bicg_final_residual_orth_initial : forall (A : SArith), FieldLaws (SA A) ->
+  forall n (mulA mulAT : list (T (SA A)) -> res (list (T (SA A)))), LinOp n mulA -> LinOp n mulAT -> AdjOp n mulA mulAT ->
+  forall itol (b x0 : list (T (SA A))) max tol res x g,
+  solve_bicg mulA mulAT n n itol b x0 max tol = Ok (res, x, g) ->
+  g_exit g = 1 \/ (g_exit g = 2 /\ 1 <= max) ->
+  exists ax0, mulA x0 = Ok ax0 /\ dot_raw (g_t g) (zipw sub b ax0) = zero.
+Proof. intros A FL n mulA mulAT LO LOT ADJ itol b x0 max tol res x g. exact (solve_bicg_residual_orth_initial FL n mulA mulAT LO LOT ADJ itol b x0 max tol res x g). Qed.
+Check bicg_final_residual_orth_initial : forall (A : SArith), FieldLaws (SA A) ->
+  forall n (mulA mulAT : list (T (SA A)) -> res (list (T (SA A)))), LinOp n mulA -> LinOp n mulAT -> AdjOp n mulA mulAT ->
+  forall itol (b x0 : list (T (SA A))) max tol res x g,
+  solve_bicg mulA mulAT n n itol b x0 max tol = Ok (res, x, g) ->
+  g_exit g = 1 \/ (g_exit g = 2 /\ 1 <= max) ->
+  exists ax0, mulA x0 = Ok ax0 /\ dot_raw (g_t g) (zipw sub b ax0) = zero.
+Print Assumptions bicg_final_residual_orth_initial.
+
+Theorem bicg_final_residual_orth_initial_sparse : forall (A : SArith) (FL : FieldLaws (SA A)) (s : sparse (SA A)) itol (b x0 : list (T (SA A))) max tol res x g,
+  wfS s ->
+  run_sparse (BiCG itol) s b x0 max tol = Ok (res, x, g) ->
+  g_exit g = 1 \/ (g_exit g = 2 /\ 1 <= max) ->
+  dot_raw (zipw sub b (sp_apply s x)) (zipw sub b (sp_apply s x0)) = zero.
+Proof. intros A FL s itol b x0 max tol res x g. exact (bicg_final_residual_orth_initial_sparse FL s itol b x0 max tol res x g). Qed.
+Check bicg_final_residual_orth_initial_sparse : forall (A : SArith) (FL : FieldLaws (SA A)) (s : sparse (SA A)) itol (b x0 : list (T (SA A))) max tol res x g,
+  wfS s ->
+  run_sparse (BiCG itol) s b x0 max tol = Ok (res, x, g) ->
+  g_exit g = 1 \/ (g_exit g = 2 /\ 1 <= max) ->
+  dot_raw (zipw sub b (sp_apply s x)) (zipw sub b (sp_apply s x0)) = zero.
+Print Assumptions bicg_final_residual_orth_initial_sparse.
+Example bicg_final_residual_orth_initial_sparse_nonvacuous : wfS exq_s /\ exists x g, @run_sparse SAQ (BiCG 1) exq_s [q 1 1; q 2 1] [q 2 1; q 1 1] 10 (q 1 1000) = Ok (IOk 2, x, g).
+Proof. split; [exact exq_s_wf|]. apply exq_run_sparse_ok. intros itol H. injection H as <-. now left. Qed.
+
+(* BREAKDOWN OR TERMINATION: a run that reaches iteration i >= 2 without a panic has divided by <r_{i-2}, rr_{i-2}>; bi-orthogonal pairs with
+   nonzero pairings are at most n (biorth_bound); hence in exact arithmetic, for EVERY square matrix, b, x0, tol: solve_bicg either divides by
+   zero (a Panic of the model -- exactly the breakdown for which the code has no test and f64 produces NaN) or answers Ok within n+1
+   iterations; it never exhausts a budget >= n+2.  Together with bicg_left_eigenvector_breakdown: the failures of BiCG on well-posed systems ARE its breakdowns *)
+Theorem bicg_breakdown_or_terminates : forall (A : SArith), FieldLaws (SA A) ->
+  forall n (mulA mulAT : list (T (SA A)) -> res (list (T (SA A)))), LinOp n mulA -> LinOp n mulAT -> AdjOp n mulA mulAT ->
+  forall itol (b x0 : list (T (SA A))) max tol res x g,
+  n + 2 <= max ->
+  solve_bicg mulA mulAT n n itol b x0 max tol = Ok (res, x, g) ->
+  exists k, res = IOk k /\ k <= n + 1.
+Proof. intros A FL n mulA mulAT LO LOT ADJ itol b x0 max tol res x g. exact (bicg_breakdown_or_terminates FL n mulA mulAT LO LOT ADJ itol b x0 max tol res x g). Qed.
+Check bicg_breakdown_or_terminates : forall (A : SArith), FieldLaws (SA A) ->
+  forall n (mulA mulAT : list (T (SA A)) -> res (list (T (SA A)))), LinOp n mulA -> LinOp n mulAT -> AdjOp n mulA mulAT ->
+  forall itol (b x0 : list (T (SA A))) max tol res x g,
+  n + 2 <= max ->
+  solve_bicg mulA mulAT n n itol b x0 max tol = Ok (res, x, g) ->
+  exists k, res = IOk k /\ k <= n + 1.
+Print Assumptions bicg_breakdown_or_terminates.
+Example bicg_breakdown_or_terminates_nonvacuous : LinOp 2 (@sp_mul AQ exq_s) /\ LinOp 2 (@sp_tmul AQ exq_s) /\ AdjOp 2 (@sp_mul AQ exq_s) (@sp_tmul AQ exq_s) /\
+  exists x g, @solve_bicg SAQ (sp_mul exq_s) (sp_tmul exq_s) 2 2 1 [q 1 1; q 2 1] [q 2 1; q 1 1] 10 (q 1 1000) = Ok (IOk 2, x, g).
+Proof. split; [exact exq_lin|]. split; [exact (sp_tmul_LinOp AQ_RingLaws exq_s 2 exq_s_wf eq_refl eq_refl)|].
+  split; [exact (sp_mul_AdjOp AQ_RingLaws exq_s 2 exq_s_wf eq_refl eq_refl)|]. apply (@ok_k_witness SAQ). vm_compute. reflexivity. Qed.
+
+(* for the implementation's matrix type: every well-formed storage (no symmetry, no dominance, no definiteness asked) *)
+Theorem bicg_breakdown_or_terminates_sparse : forall (A : SArith) (FL : FieldLaws (SA A)) (s : sparse (SA A)) itol (b x0 : list (T (SA A))) max tol res x g,
+  wfS s -> sp_rows s + 2 <= max ->
+  run_sparse (BiCG itol) s b x0 max tol = Ok (res, x, g) ->
+  exists k, res = IOk k /\ k <= sp_rows s + 1.
+Proof. intros A FL s itol b x0 max tol res x g. exact (bicg_breakdown_or_terminates_sparse FL s itol b x0 max tol res x g). Qed.
+Check bicg_breakdown_or_terminates_sparse : forall (A : SArith) (FL : FieldLaws (SA A)) (s : sparse (SA A)) itol (b x0 : list (T (SA A))) max tol res x g,
+  wfS s -> sp_rows s + 2 <= max ->
+  run_sparse (BiCG itol) s b x0 max tol = Ok (res, x, g) ->
+  exists k, res = IOk k /\ k <= sp_rows s + 1.
+Print Assumptions bicg_breakdown_or_terminates_sparse.
+Example bicg_breakdown_or_terminates_sparse_nonvacuous : wfS exq_s /\ exists x g, @run_sparse SAQ (BiCG 2) exq_s [q 1 1; q 2 1] [q 2 1; q 1 1] 10 (q 1 1000) = Ok (IOk 2, x, g).
+Proof. split; [exact exq_s_wf|]. apply exq_run_sparse_ok. intros itol H. injection H as <-. now right. Qed.
+
+(* (3) ANY arithmetic (floats included), any products, any sizes.  The ghost exit code g_exit names the `return` taken (Model/Iter.v).
+   BiCGSTAB: an Err is budget exhaustion (2), the `rho_1 == 0` exit (10) or the `omega == 0` exit (11), nothing else *)
+Theorem bicgstab_err_exits : forall (A : SArith) (mulA : list (T (SA A)) -> res (list (T (SA A)))) rows cols b x0 max tol e x g,
+  solve_bicgstab mulA rows cols b x0 max tol = Ok (IErr e, x, g) ->
+  g_exit g = 2 \/ g_exit g = 10 \/ g_exit g = 11.
+Proof. intros A mulA rows cols b x0 max tol e x g. exact (bicgstab_err_exits_lemma mulA rows cols b x0 max tol e x g). Qed.
+Check bicgstab_err_exits : forall (A : SArith) (mulA : list (T (SA A)) -> res (list (T (SA A)))) rows cols b x0 max tol e x g,
+  solve_bicgstab mulA rows cols b x0 max tol = Ok (IErr e, x, g) ->
+  g_exit g = 2 \/ g_exit g = 10 \/ g_exit g = 11.
+Print Assumptions bicgstab_err_exits.
+Example bicgstab_err_exits_nonvacuous : exit_code kf_stab_run = Some 10.
+Proof. exact kf_stab_exit_lemma. Qed.
+
+(* one iteration: the `rho_1 == 0` exit is taken EXACTLY when <rtilde, r> evaluates to a value equal to zero
+   (err_exit out c: the body left the loop with an Err whose exit code is c) *)
+Theorem bicgstab_rho_exit_body_iff : forall (A : SArith) (mulA : list (T (SA A)) -> res (list (T (SA A)))) rows rtilde tol normb i s out,
+  stab_body mulA rows rtilde tol normb i s = Ok out ->
+  (err_exit out 10 <-> exists rho, dot rtilde (st_r s) = Ok rho /\ eqb rho zero = true).
+Proof. intros A mulA rows rtilde tol normb i s out. exact (stab_body_rho_exit_iff mulA rows rtilde tol normb i s out). Qed.
+Check bicgstab_rho_exit_body_iff : forall (A : SArith) (mulA : list (T (SA A)) -> res (list (T (SA A)))) rows rtilde tol normb i s out,
+  stab_body mulA rows rtilde tol normb i s = Ok out ->
+  (err_exit out 10 <-> exists rho, dot rtilde (st_r s) = Ok rho /\ eqb rho zero = true).
+Print Assumptions bicgstab_rho_exit_body_iff.
+Example bicgstab_rho_exit_body_iff_nonvacuous : exit_code kf_stab_run = Some 10.
+Proof. exact kf_stab_exit_lemma. Qed.
+
+(* the solver: after a start-up that did not accept the guess (the five hypotheses: the code's own start-up computations), solve_bicgstab
+   gives up through `rho_1 == 0` EXACTLY when some iteration inside the budget starts from a state (reaches: through Continue steps of
+   the loop's own body) whose residual r satisfies <r0, r> == 0, r0 = b - A x0 the shadow residual *)
+Theorem bicgstab_rho_exit_iff : forall (A : SArith) (mulA : list (T (SA A)) -> res (list (T (SA A)))) rows cols b x0 max tol ax r0 resid,
+  guards rows cols b x0 = Ok tt -> mulA x0 = Ok ax -> vsub b ax = Ok r0 ->
+  div (norm2 r0) (nz (norm2 b)) = Ok resid -> leb resid tol = false ->
+  ((exists e x g, solve_bicgstab mulA rows cols b x0 max tol = Ok (IErr e, x, g) /\ g_exit g = 10) <->
+   (exists i s rho e, 1 <= i <= max /\
+      reaches (stab_body mulA rows r0 tol (nz (norm2 b))) 1 (stab_init rows x0 r0 resid tol) i s /\
+      dot r0 (st_r s) = Ok rho /\ eqb rho zero = true /\ div (norm2 (st_r s)) (nz (norm2 b)) = Ok e)).
+Proof. intros A mulA rows cols b x0 max tol ax r0 resid. exact (bicgstab_rho_exit_iff_lemma mulA rows cols b x0 max tol ax r0 resid). Qed.
+Check bicgstab_rho_exit_iff : forall (A : SArith) (mulA : list (T (SA A)) -> res (list (T (SA A)))) rows cols b x0 max tol ax r0 resid,
+  guards rows cols b x0 = Ok tt -> mulA x0 = Ok ax -> vsub b ax = Ok r0 ->
+  div (norm2 r0) (nz (norm2 b)) = Ok resid -> leb resid tol = false ->
+  ((exists e x g, solve_bicgstab mulA rows cols b x0 max tol = Ok (IErr e, x, g) /\ g_exit g = 10) <->
+   (exists i s rho e, 1 <= i <= max /\
+      reaches (stab_body mulA rows r0 tol (nz (norm2 b))) 1 (stab_init rows x0 r0 resid tol) i s /\
+      dot r0 (st_r s) = Ok rho /\ eqb rho zero = true /\ div (norm2 (st_r s)) (nz (norm2 b)) = Ok e)).
+Print Assumptions bicgstab_rho_exit_iff.
+Example bicgstab_rho_exit_iff_nonvacuous : exit_code kf_stab_run = Some 10.
+Proof. exact kf_stab_exit_lemma. Qed.
+
+(* the `omega == 0` exit: omega = <t, s> / <t, t>, t = A s, evaluated to a value equal to zero *)
+Theorem bicgstab_omega_exit : forall (A : SArith) (mulA : list (T (SA A)) -> res (list (T (SA A)))) rows rtilde tol normb i s out,
+  stab_body mulA rows rtilde tol normb i s = Ok out -> err_exit out 11 ->
+  exists sv shat t ts tdt omega, ident_pre rows sv (st_shat s) = Ok shat /\ mulA shat = Ok t /\
+    dot t sv = Ok ts /\ dot t t = Ok tdt /\ div ts tdt = Ok omega /\ eqb omega zero = true.
+Proof. intros A mulA rows rtilde tol normb i s out. exact (stab_body_omega_exit mulA rows rtilde tol normb i s out). Qed.
+Check bicgstab_omega_exit : forall (A : SArith) (mulA : list (T (SA A)) -> res (list (T (SA A)))) rows rtilde tol normb i s out,
+  stab_body mulA rows rtilde tol normb i s = Ok out -> err_exit out 11 ->
+  exists sv shat t ts tdt omega, ident_pre rows sv (st_shat s) = Ok shat /\ mulA shat = Ok t /\
+    dot t sv = Ok ts /\ dot t t = Ok tdt /\ div ts tdt = Ok omega /\ eqb omega zero = true.
+Print Assumptions bicgstab_omega_exit.
+
+(* QMR: an Err is budget exhaustion (2) or one of the six `== 0` exits rho, xi, delta, ep, beta, gamma (20..25) *)
+Theorem qmr_err_exits : forall (A : SArith) (mulA mulAT : list (T (SA A)) -> res (list (T (SA A)))) rows cols b x0 max tol e x g,
+  solve_qmr mulA mulAT rows cols b x0 max tol = Ok (IErr e, x, g) ->
+  g_exit g = 2 \/ 20 <= g_exit g <= 25.
+Proof. intros A mulA mulAT rows cols b x0 max tol e x g. exact (qmr_err_exits_lemma mulA mulAT rows cols b x0 max tol e x g). Qed.
+Check qmr_err_exits : forall (A : SArith) (mulA mulAT : list (T (SA A)) -> res (list (T (SA A)))) rows cols b x0 max tol e x g,
+  solve_qmr mulA mulAT rows cols b x0 max tol = Ok (IErr e, x, g) ->
+  g_exit g = 2 \/ 20 <= g_exit g <= 25.
+Print Assumptions qmr_err_exits.
+Example qmr_err_exits_nonvacuous : exit_code kf_qmr_run = Some 21.
+Proof. exact kf_qmr_exit_lemma. Qed.
+
+(* one iteration: the exits `rho == 0`, `xi == 0`, `delta == 0` are taken EXACTLY when rho / xi / delta = <z, y> is zero, in this order of precedence *)
+Theorem qmr_exits_body_iff : forall (A : SArith) (mulA mulAT : list (T (SA A)) -> res (list (T (SA A)))) tol normb i s out,
+  qmr_body mulA mulAT tol normb i s = Ok out ->
+  (err_exit out 20 <-> eqb (q_rho s) zero = true) /\
+  (err_exit out 21 <-> eqb (q_rho s) zero = false /\ eqb (q_xi s) zero = true) /\
+  (err_exit out 22 <-> eqb (q_rho s) zero = false /\ eqb (q_xi s) zero = false /\
+       exists y z delta, vdiv (q_y s) (q_rho s) = Ok y /\ vdiv (q_z s) (q_xi s) = Ok z /\
+                         dot z y = Ok delta /\ eqb delta zero = true).
+Proof. intros A mulA mulAT tol normb i s out. exact (qmr_body_exits_iff mulA mulAT tol normb i s out). Qed.
+Check qmr_exits_body_iff : forall (A : SArith) (mulA mulAT : list (T (SA A)) -> res (list (T (SA A)))) tol normb i s out,
+  qmr_body mulA mulAT tol normb i s = Ok out ->
+  (err_exit out 20 <-> eqb (q_rho s) zero = true) /\
+  (err_exit out 21 <-> eqb (q_rho s) zero = false /\ eqb (q_xi s) zero = true) /\
+  (err_exit out 22 <-> eqb (q_rho s) zero = false /\ eqb (q_xi s) zero = false /\
+       exists y z delta, vdiv (q_y s) (q_rho s) = Ok y /\ vdiv (q_z s) (q_xi s) = Ok z /\
+                         dot z y = Ok delta /\ eqb delta zero = true).
+Print Assumptions qmr_exits_body_iff.
+
+(* the exits `ep == 0`, `beta == 0`, `gamma == 0`: ep = <q, A p>, beta = ep / delta, gamma = 1 / sqrt (1 + theta^2) evaluated to zero *)
+Theorem qmr_late_exits : forall (A : SArith) (mulA mulAT : list (T (SA A)) -> res (list (T (SA A)))) tol normb i s out,
+  qmr_body mulA mulAT tol normb i s = Ok out ->
+  (err_exit out 23 -> exists p q pt ep, mulA p = Ok pt /\ dot q pt = Ok ep /\ eqb ep zero = true) /\
+  (err_exit out 24 -> exists ep delta beta : T (SA A), div ep delta = Ok beta /\ eqb beta zero = true) /\
+  (err_exit out 25 -> exists theta gamma : T (SA A), div one (sqrt (add one (mul theta theta))) = Ok gamma /\ eqb gamma zero = true).
+Proof. intros A mulA mulAT tol normb i s out. exact (qmr_body_late_exits mulA mulAT tol normb i s out). Qed.
+Check qmr_late_exits : forall (A : SArith) (mulA mulAT : list (T (SA A)) -> res (list (T (SA A)))) tol normb i s out,
+  qmr_body mulA mulAT tol normb i s = Ok out ->
+  (err_exit out 23 -> exists p q pt ep, mulA p = Ok pt /\ dot q pt = Ok ep /\ eqb ep zero = true) /\
+  (err_exit out 24 -> exists ep delta beta : T (SA A), div ep delta = Ok beta /\ eqb beta zero = true) /\
+  (err_exit out 25 -> exists theta gamma : T (SA A), div one (sqrt (add one (mul theta theta))) = Ok gamma /\ eqb gamma zero = true).
+Print Assumptions qmr_late_exits.
+
+(* the solver: solve_qmr gives up through `rho == 0` (`xi == 0`) EXACTLY when an iteration inside the budget starts from a state whose right
+   Lanczos vector y (left Lanczos vector z) has 2-norm equal to zero -- rho = ||y||, xi = ||z|| at every reachable state; through
+   `delta == 0` only when the normalised vectors have <z, y> == 0 *)
+Theorem qmr_exits_iff : forall (A : SArith) (mulA mulAT : list (T (SA A)) -> res (list (T (SA A)))) rows cols b x0 max tol ax r0 resid,
+  guards rows cols b x0 = Ok tt -> mulA x0 = Ok ax -> vsub b ax = Ok r0 ->
+  div (norm2 r0) (nz (norm2 b)) = Ok resid -> leb resid tol = false ->
+  let body := qmr_body mulA mulAT tol (nz (norm2 b)) in
+  let init := qmr_init rows x0 r0 resid tol in
+  ((exists e x g, solve_qmr mulA mulAT rows cols b x0 max tol = Ok (IErr e, x, g) /\ g_exit g = 20) <->
+   (exists i s, 1 <= i <= max /\ reaches body 1 init i s /\ eqb (norm2 (q_y s)) zero = true)) /\
+  ((exists e x g, solve_qmr mulA mulAT rows cols b x0 max tol = Ok (IErr e, x, g) /\ g_exit g = 21) <->
+   (exists i s, 1 <= i <= max /\ reaches body 1 init i s /\
+                eqb (norm2 (q_y s)) zero = false /\ eqb (norm2 (q_z s)) zero = true)) /\
+  ((exists e x g, solve_qmr mulA mulAT rows cols b x0 max tol = Ok (IErr e, x, g) /\ g_exit g = 22) ->
+   (exists i s y z delta, 1 <= i <= max /\ reaches body 1 init i s /\
+                eqb (norm2 (q_y s)) zero = false /\ eqb (norm2 (q_z s)) zero = false /\
+                vdiv (q_y s) (norm2 (q_y s)) = Ok y /\ vdiv (q_z s) (norm2 (q_z s)) = Ok z /\
+                dot z y = Ok delta /\ eqb delta zero = true)).
+Proof. intros A mulA mulAT rows cols b x0 max tol ax r0 resid. exact (qmr_exits_iff_lemma mulA mulAT rows cols b x0 max tol ax r0 resid). Qed.
+Check qmr_exits_iff : forall (A : SArith) (mulA mulAT : list (T (SA A)) -> res (list (T (SA A)))) rows cols b x0 max tol ax r0 resid,
+  guards rows cols b x0 = Ok tt -> mulA x0 = Ok ax -> vsub b ax = Ok r0 ->
+  div (norm2 r0) (nz (norm2 b)) = Ok resid -> leb resid tol = false ->
+  let body := qmr_body mulA mulAT tol (nz (norm2 b)) in
+  let init := qmr_init rows x0 r0 resid tol in
+  ((exists e x g, solve_qmr mulA mulAT rows cols b x0 max tol = Ok (IErr e, x, g) /\ g_exit g = 20) <->
+   (exists i s, 1 <= i <= max /\ reaches body 1 init i s /\ eqb (norm2 (q_y s)) zero = true)) /\
+  ((exists e x g, solve_qmr mulA mulAT rows cols b x0 max tol = Ok (IErr e, x, g) /\ g_exit g = 21) <->
+   (exists i s, 1 <= i <= max /\ reaches body 1 init i s /\
+                eqb (norm2 (q_y s)) zero = false /\ eqb (norm2 (q_z s)) zero = true)) /\
+  ((exists e x g, solve_qmr mulA mulAT rows cols b x0 max tol = Ok (IErr e, x, g) /\ g_exit g = 22) ->
+   (exists i s y z delta, 1 <= i <= max /\ reaches body 1 init i s /\
+                eqb (norm2 (q_y s)) zero = false /\ eqb (norm2 (q_z s)) zero = false /\
+                vdiv (q_y s) (norm2 (q_y s)) = Ok y /\ vdiv (q_z s) (norm2 (q_z s)) = Ok z /\
+                dot z y = Ok delta /\ eqb delta zero = true)).
+Print Assumptions qmr_exits_iff.
+Example qmr_exits_iff_nonvacuous : exit_code kf_qmr_run = Some 21.
+Proof. exact kf_qmr_exit_lemma. Qed.
+
+(* BiCG has NO breakdown exit: its body never returns an Err (whatever <z, rr> and <A p, pp> are, it divides by them); the only Err is
+   budget exhaustion after max_iter full steps *)
+Theorem bicg_err_only_budget : forall (A : SArith) (mulA mulAT : list (T (SA A)) -> res (list (T (SA A)))) rows cols itol b x0 max tol e x g,
+  solve_bicg mulA mulAT rows cols itol b x0 max tol = Ok (IErr e, x, g) -> g_exit g = 2.
+Proof. intros A mulA mulAT rows cols itol b x0 max tol e x g. exact (bicg_err_only_budget_lemma mulA mulAT rows cols itol b x0 max tol e x g). Qed.
+Check bicg_err_only_budget : forall (A : SArith) (mulA mulAT : list (T (SA A)) -> res (list (T (SA A)))) rows cols itol b x0 max tol e x g,
+  solve_bicg mulA mulAT rows cols itol b x0 max tol = Ok (IErr e, x, g) -> g_exit g = 2.
+Print Assumptions bicg_err_only_budget.
+Example bicg_err_only_budget_nonvacuous : exit_code (kf_bicg_run 1) = Some 2.
+Proof. exact (proj1 (proj2 (proj2 bicg_no_breakdown_test_lemma))). Qed.
+
+(* ..._refuted-style, by evaluation of the float model on the committed witness corpus/C09/kf_bicg_breakdown.json
+   ([[2,-1],[0,1]] x = (2,-2), x0 = 0, tol 1e-6, budget 140; kf_bicg_run itol = the term driver/iterlib.py:coq_run builds for it):
+   the strictly diagonally dominant system makes BiCG divide 0/0 in its second iteration; it runs out its budget on NaN and returns
+   Err(NaN) with x = (NaN, NaN), for both error measures.  (QMR on the same system: kf_qmr_exit_lemma, exit `xi == 0`.) *)
+Theorem bicg_no_breakdown_test : err_nan_x_nan (kf_bicg_run 1) = true /\ err_nan_x_nan (kf_bicg_run 2) = true /\
+  exit_code (kf_bicg_run 1) = Some 2 /\ exit_code (kf_bicg_run 2) = Some 2.
+Proof. exact bicg_no_breakdown_test_lemma. Qed.
+Check bicg_no_breakdown_test : err_nan_x_nan (kf_bicg_run 1) = true /\ err_nan_x_nan (kf_bicg_run 2) = true /\
+  exit_code (kf_bicg_run 1) = Some 2 /\ exit_code (kf_bicg_run 2) = Some 2.
+Print Assumptions bicg_no_breakdown_test.
+
+(* exact arithmetic (any field): when solve_bicgstab gives up through `rho_1 == 0` the TRUE residual of the returned x is orthogonal
+   to the initial residual:  <b - A x0, b - A x> = 0 *)
+Theorem bicgstab_rho_exit_orthogonal : forall (A : SArith), FieldLaws (SA A) ->
+  forall n (mulA : list (T (SA A)) -> res (list (T (SA A)))), LinOp n mulA ->
+  forall cols (b x0 : list (T (SA A))) max tol e x g,
+  solve_bicgstab mulA n cols b x0 max tol = Ok (IErr e, x, g) -> g_exit g = 10 ->
+  exists ax0 ax, mulA x0 = Ok ax0 /\ mulA x = Ok ax /\
+    dot_raw (zipw sub b ax0) (zipw sub b ax) = zero.
+Proof. intros A FL n mulA LO cols b x0 max tol e x g. exact (bicgstab_rho_exit_orthogonal FL n mulA LO cols b x0 max tol e x g). Qed.
+Check bicgstab_rho_exit_orthogonal : forall (A : SArith), FieldLaws (SA A) ->
+  forall n (mulA : list (T (SA A)) -> res (list (T (SA A)))), LinOp n mulA ->
+  forall cols (b x0 : list (T (SA A))) max tol e x g,
+  solve_bicgstab mulA n cols b x0 max tol = Ok (IErr e, x, g) -> g_exit g = 10 ->
+  exists ax0 ax, mulA x0 = Ok ax0 /\ mulA x = Ok ax /\
+    dot_raw (zipw sub b ax0) (zipw sub b ax) = zero.
+Print Assumptions bicgstab_rho_exit_orthogonal.
+Example bicgstab_rho_exit_orthogonal_nonvacuous : exit_code kf_stab_run = Some 10.
+Proof. exact kf_stab_exit_lemma. Qed.
+
+(* the MECHANISM of the open finding solve_bicg/breakdown as a theorem, exact arithmetic (any field, any sqrt): if the initial residual is a
+   left eigenvector of A (A^T r0 = lam r0, lam <> 0, <r0,r0> <> 0) and neither the start-up test nor the test after the first step
+   accepts, the shadow residual vanishes after one step and the second iteration divides 0 by 0: the model panics with DivZero
+   (in f64: the NaN of bicg_no_breakdown_test).  Strict diagonal dominance does not exclude it: [[2,-1],[0,1]], r0 = (2,-2), lam = 2 *)
+Theorem bicg_left_eigenvector_breakdown : forall (A : SArith) (FL : FieldLaws (SA A)),
+  forall n (mulA mulAT : list (T (SA A)) -> res (list (T (SA A)))), LinOp n mulA -> AdjOp n mulA mulAT ->
+  forall itol (b x0 ax ar0 : list (T (SA A))) lam max tol err0 err1,
+  itol = 1 \/ itol = 2 -> length b = n -> length x0 = n -> mulA x0 = Ok ax ->
+  let r0 := zipw sub b ax in
+  let rho := dot_raw r0 r0 in
+  let alpha := mul rho (fl_inv (SA A) FL (mul rho lam)) in
+  mulAT r0 = Ok (vscale r0 lam) -> lam <> zero -> rho <> zero ->
+  mulA r0 = Ok ar0 ->
+  div (norm2 r0) (nz (norm2 b)) = Ok err0 -> leb err0 tol = false ->
+  div (norm2 (zipw sub r0 (vscale ar0 alpha))) (nz (norm2 b)) = Ok err1 -> leb err1 tol = false ->
+  2 <= max ->
+  solve_bicg mulA mulAT n n itol b x0 max tol = Panic DivZero.
+Proof. intros A FL n mulA mulAT LO ADJ itol b x0 ax ar0 lam max tol err0 err1. exact (bicg_left_eigenvector_breakdown FL n mulA mulAT LO ADJ itol b x0 ax ar0 lam max tol err0 err1). Qed.
+Check bicg_left_eigenvector_breakdown : forall (A : SArith) (FL : FieldLaws (SA A)),
+  forall n (mulA mulAT : list (T (SA A)) -> res (list (T (SA A)))), LinOp n mulA -> AdjOp n mulA mulAT ->
+  forall itol (b x0 ax ar0 : list (T (SA A))) lam max tol err0 err1,
+  itol = 1 \/ itol = 2 -> length b = n -> length x0 = n -> mulA x0 = Ok ax ->
+  let r0 := zipw sub b ax in
+  let rho := dot_raw r0 r0 in
+  let alpha := mul rho (fl_inv (SA A) FL (mul rho lam)) in
+  mulAT r0 = Ok (vscale r0 lam) -> lam <> zero -> rho <> zero ->
+  mulA r0 = Ok ar0 ->
+  div (norm2 r0) (nz (norm2 b)) = Ok err0 -> leb err0 tol = false ->
+  div (norm2 (zipw sub r0 (vscale ar0 alpha))) (nz (norm2 b)) = Ok err1 -> leb err1 tol = false ->
+  2 <= max ->
+  solve_bicg mulA mulAT n n itol b x0 max tol = Panic DivZero.
+Print Assumptions bicg_left_eigenvector_breakdown.
+Example bicg_left_eigenvector_breakdown_nonvacuous : wfS kq_s /\ @sp_tmul AQ kq_s [q 2 1; q (-2) 1] = Ok (@vscale AQ [q 2 1; q (-2) 1] (q 2 1)) /\
+  is_divzero (@solve_bicg SAQ (@sp_mul AQ kq_s) (@sp_tmul AQ kq_s) 2 2 1 [q 2 1; q (-2) 1] [q 0 1; q 0 1] 140 (q 1 1000)) = true.
+Proof. split; [exact kq_s_wf|]. split; [exact kq_left_eigenvector | exact (proj1 kq_bicg_panics)]. Qed.
+
+(* for the implementation's matrix type (sp_tapply = the transposed product of the denoted matrix) *)
+Theorem bicg_left_eigenvector_breakdown_sparse : forall (A : SArith) (FL : FieldLaws (SA A)) (s : sparse (SA A)) itol (b x0 : list (T (SA A))) lam max tol err0 err1,
+  wfS s -> sp_rows s = sp_cols s -> itol = 1 \/ itol = 2 -> length b = sp_rows s -> length x0 = sp_rows s ->
+  let r0 := zipw sub b (sp_apply s x0) in
+  let rho := dot_raw r0 r0 in
+  let alpha := mul rho (fl_inv (SA A) FL (mul rho lam)) in
+  sp_tapply s r0 = vscale r0 lam -> lam <> zero -> rho <> zero ->
+  div (norm2 r0) (nz (norm2 b)) = Ok err0 -> leb err0 tol = false ->
+  div (norm2 (zipw sub r0 (vscale (sp_apply s r0) alpha))) (nz (norm2 b)) = Ok err1 -> leb err1 tol = false ->
+  2 <= max ->
+  run_sparse (BiCG itol) s b x0 max tol = Panic DivZero.
+Proof. intros A FL s itol b x0 lam max tol err0 err1. exact (bicg_left_eigenvector_breakdown_sparse FL s itol b x0 lam max tol err0 err1). Qed.
+Check bicg_left_eigenvector_breakdown_sparse : forall (A : SArith) (FL : FieldLaws (SA A)) (s : sparse (SA A)) itol (b x0 : list (T (SA A))) lam max tol err0 err1,
+  wfS s -> sp_rows s = sp_cols s -> itol = 1 \/ itol = 2 -> length b = sp_rows s -> length x0 = sp_rows s ->
+  let r0 := zipw sub b (sp_apply s x0) in
+  let rho := dot_raw r0 r0 in
+  let alpha := mul rho (fl_inv (SA A) FL (mul rho lam)) in
+  sp_tapply s r0 = vscale r0 lam -> lam <> zero -> rho <> zero ->
+  div (norm2 r0) (nz (norm2 b)) = Ok err0 -> leb err0 tol = false ->
+  div (norm2 (zipw sub r0 (vscale (sp_apply s r0) alpha))) (nz (norm2 b)) = Ok err1 -> leb err1 tol = false ->
+  2 <= max ->
+  run_sparse (BiCG itol) s b x0 max tol = Panic DivZero.
+Print Assumptions bicg_left_eigenvector_breakdown_sparse.
+Example bicg_left_eigenvector_breakdown_sparse_nonvacuous : wfS kq_s /\ sp_rows kq_s = sp_cols kq_s /\ @sp_tmul AQ kq_s [q 2 1; q (-2) 1] = Ok (@vscale AQ [q 2 1; q (-2) 1] (q 2 1)) /\
+  is_divzero (@run_sparse SAQ (BiCG 1) kq_s [q 2 1; q (-2) 1] [q 0 1; q 0 1] 140 (q 1 1000)) = true.
+Proof. split; [exact kq_s_wf|]. split; [reflexivity|]. split; [exact kq_left_eigenvector | exact (proj1 kq_bicg_panics)]. Qed.
+
+(* the MECHANISM of the open finding solve_bicgstab/breakdown as a theorem, exact arithmetic (any field, any sqrt, ANY lam): if the initial
+   (= shadow) residual is a left eigenvector of A, <r0, r1> = <r0, s> - omega <A^T r0, s> = 0 because alpha makes <r0, s> vanish: whenever
+   solve_bicgstab returns it returns from its FIRST step (Ok 1, or Err `omega == 0`) or from the first line of its second iteration
+   through `rho_1 == 0`.  All three committed witnesses corpus/C09/kf_*.json are left-eigenvector starts *)
+Theorem bicgstab_left_eigenvector_breakdown : forall (A : SArith), FieldLaws (SA A) ->
+  forall n (mulA mulAT : list (T (SA A)) -> res (list (T (SA A)))), LinOp n mulA -> AdjOp n mulA mulAT ->
+  forall (b x0 ax : list (T (SA A))) lam max tol res x g,
+  mulA x0 = Ok ax ->
+  let r0 := zipw sub b ax in
+  mulAT r0 = Ok (vscale r0 lam) -> 2 <= max ->
+  solve_bicgstab mulA n n b x0 max tol = Ok (res, x, g) ->
+  res = IOk 0 \/ res = IOk 1 \/ (exists e, res = IErr e /\ (g_exit g = 10 \/ g_exit g = 11)).
+Proof. intros A FL n mulA mulAT LO ADJ b x0 ax lam max tol res x g. exact (bicgstab_left_eigenvector_breakdown FL n mulA mulAT LO ADJ b x0 ax lam max tol res x g). Qed.
+Check bicgstab_left_eigenvector_breakdown : forall (A : SArith), FieldLaws (SA A) ->
+  forall n (mulA mulAT : list (T (SA A)) -> res (list (T (SA A)))), LinOp n mulA -> AdjOp n mulA mulAT ->
+  forall (b x0 ax : list (T (SA A))) lam max tol res x g,
+  mulA x0 = Ok ax ->
+  let r0 := zipw sub b ax in
+  mulAT r0 = Ok (vscale r0 lam) -> 2 <= max ->
+  solve_bicgstab mulA n n b x0 max tol = Ok (res, x, g) ->
+  res = IOk 0 \/ res = IOk 1 \/ (exists e, res = IErr e /\ (g_exit g = 10 \/ g_exit g = 11)).
+Print Assumptions bicgstab_left_eigenvector_breakdown.
+
+(* for the implementation's matrix type; instance: the committed witness [[2,0,1],[0,4,-1],[0,0,3]] x = (0,-6,6), x0 = 0, lam = 4 (over Qc: exit 10) *)
+Theorem bicgstab_left_eigenvector_breakdown_sparse : forall (A : SArith) (FL : FieldLaws (SA A)) (s : sparse (SA A)) (b x0 : list (T (SA A))) lam max tol res x g,
+  wfS s ->
+  let r0 := zipw sub b (sp_apply s x0) in
+  sp_tapply s r0 = vscale r0 lam -> 2 <= max ->
+  run_sparse BiCGSTAB s b x0 max tol = Ok (res, x, g) ->
+  res = IOk 0 \/ res = IOk 1 \/ (exists e, res = IErr e /\ (g_exit g = 10 \/ g_exit g = 11)).
+Proof. intros A FL s b x0 lam max tol res x g. exact (bicgstab_left_eigenvector_breakdown_sparse FL s b x0 lam max tol res x g). Qed.
+Check bicgstab_left_eigenvector_breakdown_sparse : forall (A : SArith) (FL : FieldLaws (SA A)) (s : sparse (SA A)) (b x0 : list (T (SA A))) lam max tol res x g,
+  wfS s ->
+  let r0 := zipw sub b (sp_apply s x0) in
+  sp_tapply s r0 = vscale r0 lam -> 2 <= max ->
+  run_sparse BiCGSTAB s b x0 max tol = Ok (res, x, g) ->
+  res = IOk 0 \/ res = IOk 1 \/ (exists e, res = IErr e /\ (g_exit g = 10 \/ g_exit g = 11)).
+Print Assumptions bicgstab_left_eigenvector_breakdown_sparse.
+Example bicgstab_left_eigenvector_breakdown_sparse_nonvacuous : wfS k3q_s /\
+  (let r0 := @zipw AQ sub [q 0 1; q (-6) 1; q 6 1] (@sp_apply AQ k3q_s [q 0 1; q 0 1; q 0 1]) in
+   @sp_tapply AQ k3q_s r0 = @vscale AQ r0 (q 4 1)) /\
+  exit_code_q (@run_sparse SAQ BiCGSTAB k3q_s [q 0 1; q (-6) 1; q 6 1] [q 0 1; q 0 1; q 0 1] 160 (q 1 1000000)) = Some 10.
+Proof. split; [exact k3q_s_wf|]. split; [exact k3q_left_eigenvector | exact k3q_stab_exit]. Qed.
+
+(* the MECHANISM of the open finding solve_qmr/breakdown as a theorem, over R with the exact square root: if the initial residual is a left
+   eigenvector of A (A^T r0 = lam r0, lam <> 0, r0 <> 0), solve_qmr performs exactly ONE step -- the left Lanczos vector
+   w~ = A^T q - beta w vanishes identically -- and then either that step's test accepted (Ok 1; Ok 0 if the guess was accepted) or the
+   second iteration leaves through `rho == 0` / `xi == 0` with Err: whatever tol, budget >= 2, b.  No look-ahead, no restart *)
+Theorem qmr_left_eigenvector_breakdown : forall n (mulA mulAT : list R -> res (list R)), @LinOp AR n mulA -> @LinOp AR n mulAT -> @AdjOp AR n mulA mulAT ->
+  forall (b x0 ax : list R) (lam : R) max (tol : R),
+  length b = n -> length x0 = n -> mulA x0 = Ok ax ->
+  let r0 := @zipw AR Rminus b ax in
+  mulAT r0 = Ok (@vscale AR r0 lam) -> lam <> 0%R -> r0 <> repeat 0%R n ->
+  2 <= max ->
+  exists res x g, @solve_qmr SAR mulA mulAT n n b x0 max tol = Ok (res, x, g) /\
+    (res = IOk 0 \/ res = IOk 1 \/ (exists e, res = IErr e /\ (g_exit g = 20 \/ g_exit g = 21))).
+Proof. intros n mulA mulAT LO LOT ADJ b x0 ax lam max tol. exact (qmr_left_eigenvector_breakdown n mulA mulAT LO LOT ADJ b x0 ax lam max tol). Qed.
+Check qmr_left_eigenvector_breakdown : forall n (mulA mulAT : list R -> res (list R)), @LinOp AR n mulA -> @LinOp AR n mulAT -> @AdjOp AR n mulA mulAT ->
+  forall (b x0 ax : list R) (lam : R) max (tol : R),
+  length b = n -> length x0 = n -> mulA x0 = Ok ax ->
+  let r0 := @zipw AR Rminus b ax in
+  mulAT r0 = Ok (@vscale AR r0 lam) -> lam <> 0%R -> r0 <> repeat 0%R n ->
+  2 <= max ->
+  exists res x g, @solve_qmr SAR mulA mulAT n n b x0 max tol = Ok (res, x, g) /\
+    (res = IOk 0 \/ res = IOk 1 \/ (exists e, res = IErr e /\ (g_exit g = 20 \/ g_exit g = 21))).
+Print Assumptions qmr_left_eigenvector_breakdown.
+
+(* for the implementation's matrix type; the committed witness [[2,-1],[0,1]] x = (2,-2), x0 = 0 is an instance (lam = 2) -- strictly
+   diagonally dominant, condition number 3, and QMR cannot solve it for any tol below the residual of its first step *)
+Theorem qmr_left_eigenvector_breakdown_sparse : forall (s : sparse AR) (b x0 : list R) (lam : R) max (tol : R),
+  wfS s -> sp_rows s = sp_cols s -> length b = sp_rows s -> length x0 = sp_rows s ->
+  let r0 := @zipw AR Rminus b (@sp_apply AR s x0) in
+  @sp_tapply AR s r0 = @vscale AR r0 lam -> lam <> 0%R -> r0 <> repeat 0%R (sp_rows s) ->
+  2 <= max ->
+  exists res x g, @run_sparse SAR QMR s b x0 max tol = Ok (res, x, g) /\
+    (res = IOk 0 \/ res = IOk 1 \/ (exists e, res = IErr e /\ (g_exit g = 20 \/ g_exit g = 21))).
+Proof. intros s b x0 lam max tol. exact (qmr_left_eigenvector_breakdown_sparse s b x0 lam max tol). Qed.
+Check qmr_left_eigenvector_breakdown_sparse : forall (s : sparse AR) (b x0 : list R) (lam : R) max (tol : R),
+  wfS s -> sp_rows s = sp_cols s -> length b = sp_rows s -> length x0 = sp_rows s ->
+  let r0 := @zipw AR Rminus b (@sp_apply AR s x0) in
+  @sp_tapply AR s r0 = @vscale AR r0 lam -> lam <> 0%R -> r0 <> repeat 0%R (sp_rows s) ->
+  2 <= max ->
+  exists res x g, @run_sparse SAR QMR s b x0 max tol = Ok (res, x, g) /\
+    (res = IOk 0 \/ res = IOk 1 \/ (exists e, res = IErr e /\ (g_exit g = 20 \/ g_exit g = 21))).
+Print Assumptions qmr_left_eigenvector_breakdown_sparse.
+Example qmr_left_eigenvector_breakdown_sparse_nonvacuous : wfS kr_s /\ sp_rows kr_s = sp_cols kr_s /\
+  (let r0 := @zipw AR Rminus [2%R; (-2)%R] (@sp_apply AR kr_s [0%R; 0%R]) in
+   @sp_tapply AR kr_s r0 = @vscale AR r0 2%R /\ r0 <> repeat 0%R (sp_rows kr_s)).
+Proof. split; [exact kr_s_wf|]. split; [reflexivity | exact kr_left_eigenvector]. Qed.
+
+(* a SYNTACTIC class of such starts, read off the matrix entries: if the last row of the matrix is (0, ..., 0, a) -- every upper triangular
+   matrix -- then with b = c e_n (last_unit n c: supported on the last coordinate) and the zero guess the initial residual is b itself and
+   A^T b = a b *)
+Theorem last_row_gives_left_eigenvector : forall (A : Arith), RingLaws A -> forall (s : sparse A) n c,
+  sp_rows s = S n -> sp_cols s = S n -> (forall j, j < n -> sp_entry s n j = zero) ->
+  let r0 := zipw sub (last_unit n c) (sp_apply s (repeat zero (S n))) in
+  r0 = last_unit n c /\ sp_tapply s r0 = vscale r0 (sp_entry s n n).
+Proof. intros A RL s n c. exact (last_row_start RL s n c). Qed.
+Check last_row_gives_left_eigenvector : forall (A : Arith), RingLaws A -> forall (s : sparse A) n c,
+  sp_rows s = S n -> sp_cols s = S n -> (forall j, j < n -> sp_entry s n j = zero) ->
+  let r0 := zipw sub (last_unit n c) (sp_apply s (repeat zero (S n))) in
+  r0 = last_unit n c /\ sp_tapply s r0 = vscale r0 (sp_entry s n n).
+Print Assumptions last_row_gives_left_eigenvector.
+Example last_row_gives_left_eigenvector_nonvacuous : sp_rows kr_s = 2 /\ sp_cols kr_s = 2 /\ (forall j, j < 1 -> @sp_entry AR kr_s 1 j = 0%R) /\ @sp_entry AR kr_s 1 1 <> 0%R.
+Proof. split; [reflexivity|]. split; [reflexivity | exact kr_last_row]. Qed.
+
+(* hence, over R: for EVERY well-formed storage of order n+1 whose last row is (0,...,0,a), a <> 0 -- strictly diagonally dominant or not --,
+   b = c e_n (c <> 0), x0 = 0: solve_qmr performs exactly one step and then gives up (or was already content).  Concrete f64 run on the
+   implementation: [[2,1],[0,1]] x = (0,1): solve_qmr -> Err(0.7071), x = (0, 0.5) (solution (-0.5, 1)); solve_bicg -> Err(NaN), x = (NaN, NaN) *)
+Theorem qmr_last_row_breakdown : forall (s : sparse AR) n (c : R) max (tol : R),
+  wfS s -> sp_rows s = S n -> sp_cols s = S n ->
+  (forall j, j < n -> @sp_entry AR s n j = 0%R) -> @sp_entry AR s n n <> 0%R -> c <> 0%R -> 2 <= max ->
+  exists res x g, @run_sparse SAR QMR s (@last_unit AR n c) (repeat 0%R (S n)) max tol = Ok (res, x, g) /\
+    (res = IOk 0 \/ res = IOk 1 \/ (exists e, res = IErr e /\ (g_exit g = 20 \/ g_exit g = 21))).
+Proof. intros s n c max tol. exact (qmr_last_row_breakdown s n c max tol). Qed.
+Check qmr_last_row_breakdown : forall (s : sparse AR) n (c : R) max (tol : R),
+  wfS s -> sp_rows s = S n -> sp_cols s = S n ->
+  (forall j, j < n -> @sp_entry AR s n j = 0%R) -> @sp_entry AR s n n <> 0%R -> c <> 0%R -> 2 <= max ->
+  exists res x g, @run_sparse SAR QMR s (@last_unit AR n c) (repeat 0%R (S n)) max tol = Ok (res, x, g) /\
+    (res = IOk 0 \/ res = IOk 1 \/ (exists e, res = IErr e /\ (g_exit g = 20 \/ g_exit g = 21))).
+Print Assumptions qmr_last_row_breakdown.
+Example qmr_last_row_breakdown_nonvacuous : wfS kr_s /\ sp_rows kr_s = 2 /\ sp_cols kr_s = 2 /\ (forall j, j < 1 -> @sp_entry AR kr_s 1 j = 0%R) /\ @sp_entry AR kr_s 1 1 <> 0%R.
+Proof. split; [exact kr_s_wf|]. split; [reflexivity|]. split; [reflexivity | exact kr_last_row]. Qed.
+
+(* ... and over any field BiCGSTAB never performs a second step on such an input *)
+Theorem bicgstab_last_row_breakdown : forall (A : SArith) (FL : FieldLaws (SA A)) (s : sparse (SA A)) n c max tol res x g,
+  wfS s -> sp_rows s = S n -> sp_cols s = S n ->
+  (forall j, j < n -> sp_entry s n j = zero) -> 2 <= max ->
+  run_sparse BiCGSTAB s (last_unit n c) (repeat zero (S n)) max tol = Ok (res, x, g) ->
+  res = IOk 0 \/ res = IOk 1 \/ (exists e, res = IErr e /\ (g_exit g = 10 \/ g_exit g = 11)).
+Proof. intros A FL s n c max tol res x g. exact (bicgstab_last_row_breakdown FL s n c max tol res x g). Qed.
+Check bicgstab_last_row_breakdown : forall (A : SArith) (FL : FieldLaws (SA A)) (s : sparse (SA A)) n c max tol res x g,
+  wfS s -> sp_rows s = S n -> sp_cols s = S n ->
+  (forall j, j < n -> sp_entry s n j = zero) -> 2 <= max ->
+  run_sparse BiCGSTAB s (last_unit n c) (repeat zero (S n)) max tol = Ok (res, x, g) ->
+  res = IOk 0 \/ res = IOk 1 \/ (exists e, res = IErr e /\ (g_exit g = 10 \/ g_exit g = 11)).
+Print Assumptions bicgstab_last_row_breakdown.
